@@ -1,17 +1,19 @@
 (* C01 / C02 end to end beyond the affine fragment: models whose constraints and objective are built from
-   + - * / (by constants), unary minus and abs(.), with abs nested to any depth.  Here the linearizer creates
-   auxiliary variables ($abs_k, $abs_k_positive), pushes big-M rows back into its queue and relies on the bound
-   analysis; the theorem is therefore a genuine projection statement: the feasible set of the compiled linear model,
-   projected on the declared variables, is the feasible set of the source model.
+   + - * / (by constants), unary minus, abs(.), min{..} and max{..}, nested to any depth.  Here the linearizer creates
+   auxiliary variables ($abs_k, $abs_k_positive, $max_k, $max_k_select_i, ...), pushes one-sided, big-M or selector rows
+   back into its queue and relies on the bound analysis; the theorem is therefore a genuine projection statement: the
+   feasible set of the compiled linear model, projected on the declared variables, is the feasible set of the source.
 
-   The fragment is delimited by a decidable trace condition (trace_ok): every constraint the main loop takes from its
-   queue - source constraints and the rows the abs arm pushes back - goes down the arithmetic path (not an assertion,
-   not taken by the logic-constraint test) and, once rewritten by flatten/simplify, contains only arithmetic and abs
-   nodes over declared names.  The condition is evaluated on every tied model by the correspondence check. *)
+   The fragment is delimited by a decidable trace condition (compile_trace): the objective and every constraint the main
+   loop takes from its queue - source constraints and the rows the arms pushed back - goes down the arithmetic path (not an
+   assertion, not taken by the logic-constraint test) and, once rewritten by flatten/simplify, contains only arithmetic,
+   abs, min and max nodes over names declared so far, with no operand of a min / max pruned as dominated (noprune; the
+   pruning rule itself is outside this theorem).  The condition is evaluated on every tied model by the correspondence
+   check.  The file name is historical: the development started with abs. *)
 From Coq Require Import QArith Qreals Reals ZArith Bool List String Lra Lia Permutation Sorting.Sorted.
 From Rooc Require Import Base.XQ Model.Exp Model.Sem Model.Flatten Model.Simplify Model.Bounds Model.Linearize Model.Spec
   Proof.XQFacts Proof.SemFacts Proof.AListFacts Proof.IntervalSound Proof.BoundsOfSound Proof.AffineSound Proof.LinAffine
-  Proof.LinFrame Proof.WellFormed Proof.SimplifyMain Proof.FlattenSound Proof.PropagateSound Proof.PublishSound
+  Proof.ExpInd Proof.LinFrame Proof.WellFormed Proof.SimplifyMain Proof.FlattenSound Proof.PropagateSound Proof.PublishSound
   Proof.PublishedCompile Proof.TightenSound Proof.ShrinkSound Proof.ArmLemmas Proof.CompileAffine.
 Import ListNotations.
 Local Close Scope Q_scope.
@@ -25,6 +27,8 @@ Fixpoint okexp (e : exp) : bool :=
   | BinOp (Add | Sub | Mul | Div) a b => okexp a && okexp b
   | UnOp Neg x => okexp x
   | Abs x => okexp x
+  | Min l | Max l =>
+      match l with [] => false | _ => (fix all (l : list exp) : bool := match l with [] => true | x :: xs => okexp x && all xs end) l end
   | _ => false
   end.
 Fixpoint xvars (e : exp) : list string :=
@@ -32,6 +36,7 @@ Fixpoint xvars (e : exp) : list string :=
   | Var n => [n]
   | BinOp _ a b => xvars a ++ xvars b
   | UnOp _ x | Abs x => xvars x
+  | Min l | Max l => (fix fm (l : list exp) : list string := match l with [] => [] | x :: xs => xvars x ++ fm xs end) l
   | _ => []
   end.
 (* source expressions: total (no division by zero, finite literals) *)
@@ -43,57 +48,121 @@ Fixpoint plainA (e : exp) : bool :=
   | BinOp Div a (Num (Fin q)) => plainA a && negb (q_eqb q 0)
   | UnOp Neg x => plainA x
   | Abs x => plainA x
+  | Min l | Max l =>
+      match l with [] => false | _ => (fix all (l : list exp) : bool := match l with [] => true | x :: xs => plainA x && all xs end) l end
   | _ => false
   end.
 
+(* the nested fixpoints as list functions *)
+Lemma okexp_list l : (fix all (l : list exp) : bool := match l with [] => true | x :: xs => okexp x && all xs end) l = forallb okexp l.
+Proof. induction l as [|x xs IH]; [reflexivity|]. cbn [forallb]. rewrite <- IH. reflexivity. Qed.
+Lemma plainA_list l : (fix all (l : list exp) : bool := match l with [] => true | x :: xs => plainA x && all xs end) l = forallb plainA l.
+Proof. induction l as [|x xs IH]; [reflexivity|]. cbn [forallb]. rewrite <- IH. reflexivity. Qed.
+Lemma xvars_list l : (fix fm (l : list exp) : list string := match l with [] => [] | x :: xs => xvars x ++ fm xs end) l = flat_map xvars l.
+Proof. induction l as [|x xs IH]; [reflexivity|]. cbn [flat_map]. rewrite <- IH. reflexivity. Qed.
+Lemma okexp_Max l : okexp (Max l) = match l with [] => false | _ => forallb okexp l end.
+Proof. cbn [okexp]. destruct l as [|x xs]; [reflexivity|]. rewrite <- (okexp_list (x :: xs)). reflexivity. Qed.
+Lemma okexp_Min l : okexp (Min l) = match l with [] => false | _ => forallb okexp l end.
+Proof. cbn [okexp]. destruct l as [|x xs]; [reflexivity|]. rewrite <- (okexp_list (x :: xs)). reflexivity. Qed.
+Lemma plainA_Max l : plainA (Max l) = match l with [] => false | _ => forallb plainA l end.
+Proof. cbn [plainA]. destruct l as [|x xs]; [reflexivity|]. rewrite <- (plainA_list (x :: xs)). reflexivity. Qed.
+Lemma plainA_Min l : plainA (Min l) = match l with [] => false | _ => forallb plainA l end.
+Proof. cbn [plainA]. destruct l as [|x xs]; [reflexivity|]. rewrite <- (plainA_list (x :: xs)). reflexivity. Qed.
+Lemma xvars_Max l : xvars (Max l) = flat_map xvars l.
+Proof. cbn [xvars]. apply xvars_list. Qed.
+Lemma xvars_Min l : xvars (Min l) = flat_map xvars l.
+Proof. cbn [xvars]. apply xvars_list. Qed.
+
+Lemma forallb_imp (p q : exp -> bool) l : Forall (fun e => p e = true -> q e = true) l -> forallb p l = true -> forallb q l = true.
+Proof.
+  induction 1 as [|x l Hx _ IH]; [reflexivity|]. cbn [forallb]. intros H. apply andb_true_iff in H as [H1 H2].
+  rewrite (Hx H1), (IH H2). reflexivity.
+Qed.
+
 Lemma plainA_okexp : forall e, plainA e = true -> okexp e = true.
 Proof.
-  induction e; cbn [plainA okexp]; intros H; try discriminate; try reflexivity.
-  - exact (IHe H).
-  - destruct op; try discriminate.
-    + apply andb_true_iff in H as [H1 H2]. rewrite IHe1, IHe2 by assumption. reflexivity.
-    + apply andb_true_iff in H as [H1 H2]. rewrite IHe1, IHe2 by assumption. reflexivity.
-    + apply andb_true_iff in H as [H1 H2]. rewrite IHe1, IHe2 by assumption. reflexivity.
-    + destruct e2; try discriminate. destruct x; try discriminate. apply andb_true_iff in H as [H1 H2].
+  induction e using exp_ind'; intros Hp; try discriminate; try reflexivity.
+  - cbn [plainA okexp] in *. auto.
+  - rewrite plainA_Min in Hp. rewrite okexp_Min. destruct l; [discriminate|]. exact (forallb_imp _ _ _ H Hp).
+  - rewrite plainA_Max in Hp. rewrite okexp_Max. destruct l; [discriminate|]. exact (forallb_imp _ _ _ H Hp).
+  - cbn [plainA okexp] in *. destruct op; try discriminate.
+    + apply andb_true_iff in Hp as [H1 H2]. rewrite IHe1, IHe2 by assumption. reflexivity.
+    + apply andb_true_iff in Hp as [H1 H2]. rewrite IHe1, IHe2 by assumption. reflexivity.
+    + apply andb_true_iff in Hp as [H1 H2]. rewrite IHe1, IHe2 by assumption. reflexivity.
+    + destruct e2; try discriminate. destruct x; try discriminate. apply andb_true_iff in Hp as [H1 H2].
       rewrite IHe1 by assumption. reflexivity.
-  - destruct op; try discriminate. exact (IHe H).
+  - cbn [plainA okexp] in *. destruct op; try discriminate. auto.
+Qed.
+
+(* values of a list of total expressions *)
+Lemma evlist_total rho t l : Forall (fun e => exists v, evg rho t e = Some v) l -> exists vs, evlist rho t l = Some vs /\ List.length vs = List.length l.
+Proof.
+  induction 1 as [|x l [v Hv] _ [vs [IH1 IH2]]]; [exists []; split; reflexivity|].
+  exists (v :: vs). cbn [evlist]. rewrite Hv, IH1. split; [reflexivity|cbn; rewrite IH2; reflexivity].
+Qed.
+Lemma evlist_same rho l : Forall (fun e => exists v, evT rho e = Some v /\ ev rho e = Some v) l ->
+  exists vs, evlist rho true l = Some vs /\ evlist rho false l = Some vs /\ List.length vs = List.length l.
+Proof.
+  induction 1 as [|x l [v [Tv Ev]] _ [vs [IH1 [IH2 IH3]]]]; [exists []; repeat split; reflexivity|].
+  exists (v :: vs). unfold evT, ev in *. cbn [evlist]. rewrite Tv, Ev, IH1, IH2. repeat split; try reflexivity. cbn. rewrite IH3. reflexivity.
 Qed.
 
 Lemma plainA_total rho : forall e, plainA e = true -> exists v, evT rho e = Some v /\ ev rho e = Some v.
 Proof.
-  induction e; cbn [plainA]; intros H; try discriminate.
-  - destruct x; try discriminate. eexists. split; reflexivity.
+  induction e using exp_ind'; intros H0; try discriminate.
+  - cbn [plainA] in H0. destruct x; try discriminate. eexists. split; reflexivity.
   - eexists. split; reflexivity.
-  - destruct (IHe H) as [a [Ta Ea]]. exists (Rabs a). unfold evT, ev in *. rewrite !evg_Abs, Ta, Ea. split; reflexivity.
-  - destruct op; try discriminate.
-    + apply andb_true_iff in H as [H1 H2]. destruct (IHe1 H1) as [a [Ta Ea]]. destruct (IHe2 H2) as [b [Tb Eb]].
+  - cbn [plainA] in H0. destruct (IHe H0) as [a [Ta Ea]]. exists (Rabs a). unfold evT, ev in *. rewrite !evg_Abs, Ta, Ea. split; reflexivity.
+  - rewrite plainA_Min in H0. destruct l as [|x l]; [discriminate|].
+    assert (F : Forall (fun e => exists v, evT rho e = Some v /\ ev rho e = Some v) (x :: l)).
+    { apply Forall_forall. intros e He. apply (proj1 (Forall_forall _ _) H e He). exact (proj1 (forallb_forall _ _) H0 e He). }
+    destruct (evlist_same rho _ F) as [vs [E1 [E2 E3]]]. destruct vs as [|v vs]; [discriminate|].
+    exists (fold_left Rmin vs v). unfold evT, ev. rewrite !evg_Min, E1, E2. split; reflexivity.
+  - rewrite plainA_Max in H0. destruct l as [|x l]; [discriminate|].
+    assert (F : Forall (fun e => exists v, evT rho e = Some v /\ ev rho e = Some v) (x :: l)).
+    { apply Forall_forall. intros e He. apply (proj1 (Forall_forall _ _) H e He). exact (proj1 (forallb_forall _ _) H0 e He). }
+    destruct (evlist_same rho _ F) as [vs [E1 [E2 E3]]]. destruct vs as [|v vs]; [discriminate|].
+    exists (fold_left Rmax vs v). unfold evT, ev. rewrite !evg_Max, E1, E2. split; reflexivity.
+  - cbn [plainA] in H0. destruct op; try discriminate.
+    + apply andb_true_iff in H0 as [H1 H2]. destruct (IHe1 H1) as [a [Ta Ea]]. destruct (IHe2 H2) as [b [Tb Eb]].
       exists (a + b). unfold evT, ev in *. rewrite !evg_BinOp, Ta, Tb, Ea, Eb. split; reflexivity.
-    + apply andb_true_iff in H as [H1 H2]. destruct (IHe1 H1) as [a [Ta Ea]]. destruct (IHe2 H2) as [b [Tb Eb]].
+    + apply andb_true_iff in H0 as [H1 H2]. destruct (IHe1 H1) as [a [Ta Ea]]. destruct (IHe2 H2) as [b [Tb Eb]].
       exists (a - b). unfold evT, ev in *. rewrite !evg_BinOp, Ta, Tb, Ea, Eb. split; reflexivity.
-    + apply andb_true_iff in H as [H1 H2]. destruct (IHe1 H1) as [a [Ta Ea]]. destruct (IHe2 H2) as [b [Tb Eb]].
+    + apply andb_true_iff in H0 as [H1 H2]. destruct (IHe1 H1) as [a [Ta Ea]]. destruct (IHe2 H2) as [b [Tb Eb]].
       exists (a * b). unfold evT, ev in *. rewrite !evg_BinOp, Ta, Tb, Ea, Eb. split; reflexivity.
-    + destruct e2; try discriminate. destruct x; try discriminate. apply andb_true_iff in H as [H1 H2].
+    + destruct e2; try discriminate. destruct x; try discriminate. apply andb_true_iff in H0 as [H1 H2].
       destruct (IHe1 H1) as [a [Ta Ea]]. apply negb_true_iff in H2. apply q_eqb_false in H2. rewrite Q2R_0 in H2.
       exists (a / Q2R q). unfold evT, ev in *. rewrite !evg_BinOp, Ta, Ea. cbn [evg ev_binop].
       destruct (Req_EM_T (Q2R q) 0) as [Z|Z]; [contradiction|]. split; reflexivity.
-  - destruct op; try discriminate. destruct (IHe H) as [a [Ta Ea]]. exists (- a). unfold evT, ev in *.
+  - cbn [plainA] in H0. destruct op; try discriminate. destruct (IHe H0) as [a [Ta Ea]]. exists (- a). unfold evT, ev in *.
     cbn [evg]. rewrite Ta, Ea. split; reflexivity.
 Qed.
 
 (* the value depends on the listed variables only *)
+Lemma evlist_agree rho sigma l : Forall (fun e => ev rho e = ev sigma e) l -> evlist rho false l = evlist sigma false l.
+Proof. induction 1 as [|x l Hx _ IH]; [reflexivity|]. unfold ev in Hx. cbn [evlist]. rewrite Hx, IH. reflexivity. Qed.
 Lemma ev_agree rho sigma : forall e, okexp e = true -> (forall n, In n (xvars e) -> rho n = sigma n) -> ev rho e = ev sigma e.
 Proof.
-  induction e; cbn [okexp xvars]; intros H A; try discriminate.
+  induction e using exp_ind'; intros H0 A; try discriminate.
   - reflexivity.
   - unfold ev. cbn [evg]. rewrite (A s (or_introl eq_refl)). reflexivity.
-  - unfold ev in *. rewrite !evg_Abs, (IHe H A). reflexivity.
-  - assert (H12 : okexp e1 = true /\ okexp e2 = true) by (destruct op; try discriminate; apply andb_true_iff in H; exact H).
+  - cbn [okexp xvars] in *. unfold ev in *. rewrite !evg_Abs, (IHe H0 A). reflexivity.
+  - rewrite okexp_Min in H0. rewrite xvars_Min in A. destruct l as [|x l]; [discriminate|]. unfold ev. rewrite !evg_Min.
+    rewrite (evlist_agree rho sigma (x :: l)); [reflexivity|]. apply Forall_forall. intros e He.
+    apply (proj1 (Forall_forall _ _) H e He); [exact (proj1 (forallb_forall _ _) H0 e He)|].
+    intros n Hn. apply A. apply in_flat_map. exists e. split; assumption.
+  - rewrite okexp_Max in H0. rewrite xvars_Max in A. destruct l as [|x l]; [discriminate|]. unfold ev. rewrite !evg_Max.
+    rewrite (evlist_agree rho sigma (x :: l)); [reflexivity|]. apply Forall_forall. intros e He.
+    apply (proj1 (Forall_forall _ _) H e He); [exact (proj1 (forallb_forall _ _) H0 e He)|].
+    intros n Hn. apply A. apply in_flat_map. exists e. split; assumption.
+  - cbn [okexp xvars] in *.
+    assert (H12 : okexp e1 = true /\ okexp e2 = true) by (destruct op; try discriminate; apply andb_true_iff in H0; exact H0).
     destruct H12 as [H1 H2]. unfold ev in *. rewrite !evg_BinOp.
     rewrite (IHe1 H1) by (intros n Hn; apply A; apply in_or_app; left; exact Hn).
     rewrite (IHe2 H2) by (intros n Hn; apply A; apply in_or_app; right; exact Hn).
     destruct (evg sigma false e1); [|reflexivity]. destruct (evg sigma false e2); [|reflexivity].
     destruct op; try discriminate; reflexivity.
-  - destruct op; try discriminate. unfold ev in *. rewrite !evg_Neg, (IHe H A). reflexivity.
+  - cbn [okexp xvars] in *. destruct op; try discriminate. unfold ev in *. rewrite !evg_Neg, (IHe H0 A). reflexivity.
 Qed.
 
 Definition tot (e : exp) : Prop := forall sigma, exists v, ev sigma e = Some v.
@@ -112,12 +181,27 @@ Proof. intros H sigma. destruct (H sigma) as [v Hv]. unfold ev in *. rewrite evg
 Lemma bounds_of_on a rho : forall e v, okexp e = true ->
   (forall n, In n (xvars e) -> in_b (a_get a n) (rho n)) -> ev rho e = Some v -> in_b (bounds_of a e) v.
 Proof.
-  unfold ev. induction e; cbn [okexp xvars]; intros v H A Hv; try discriminate.
+  unfold ev. induction e using exp_ind'; intros v H0 A Hv; try discriminate.
   - apply evg_Num_inv in Hv as [q [-> ->]]. apply in_b_singleton.
   - cbn in Hv. inversion Hv; subst. cbn [bounds_of]. apply A. left. reflexivity.
-  - rewrite evg_Abs in Hv. destruct (evg rho false e) as [w|] eqn:E; [|discriminate]. inversion Hv; subst.
-    cbn [bounds_of]. apply b_abs_sound. apply IHe; [exact H|exact A|reflexivity].
-  - assert (H12 : okexp e1 = true /\ okexp e2 = true) by (destruct op; try discriminate; apply andb_true_iff in H; exact H).
+  - cbn [okexp xvars] in *. rewrite evg_Abs in Hv. destruct (evg rho false e) as [w|] eqn:E; [|discriminate]. inversion Hv; subst.
+    cbn [bounds_of]. apply b_abs_sound. apply IHe; [exact H0|exact A|reflexivity].
+  - rewrite okexp_Min in H0. rewrite xvars_Min in A. destruct l as [|x l]; [discriminate|].
+    assert (F : Forall (fun e => forall v, evg rho false e = Some v -> in_b (bounds_of a e) v) (x :: l)).
+    { apply Forall_forall. intros e He w Hw. apply (proj1 (Forall_forall _ _) H e He); [exact (proj1 (forallb_forall _ _) H0 e He)| |exact Hw].
+      intros n Hn. apply A. apply in_flat_map. exists e. split; assumption. }
+    rewrite evg_Min in Hv. cbn [evlist] in Hv. destruct (evg rho false x) as [vx|] eqn:Ex; [|discriminate].
+    destruct (evlist rho false l) as [vs'|] eqn:El; [|discriminate]. cbn [fold_min] in Hv. inversion Hv; subst v; clear Hv.
+    inversion F as [|? ? Fx Fl]; subst. cbn [bounds_of]. apply (fold_min_sound a rho); [exact Fl|exact El|apply Fx; exact Ex].
+  - rewrite okexp_Max in H0. rewrite xvars_Max in A. destruct l as [|x l]; [discriminate|].
+    assert (F : Forall (fun e => forall v, evg rho false e = Some v -> in_b (bounds_of a e) v) (x :: l)).
+    { apply Forall_forall. intros e He w Hw. apply (proj1 (Forall_forall _ _) H e He); [exact (proj1 (forallb_forall _ _) H0 e He)| |exact Hw].
+      intros n Hn. apply A. apply in_flat_map. exists e. split; assumption. }
+    rewrite evg_Max in Hv. cbn [evlist] in Hv. destruct (evg rho false x) as [vx|] eqn:Ex; [|discriminate].
+    destruct (evlist rho false l) as [vs'|] eqn:El; [|discriminate]. cbn [fold_max] in Hv. inversion Hv; subst v; clear Hv.
+    inversion F as [|? ? Fx Fl]; subst. cbn [bounds_of]. apply (fold_max_sound a rho); [exact Fl|exact El|apply Fx; exact Ex].
+  - cbn [okexp xvars] in *.
+    assert (H12 : okexp e1 = true /\ okexp e2 = true) by (destruct op; try discriminate; apply andb_true_iff in H0; exact H0).
     destruct H12 as [H1 H2].
     rewrite evg_BinOp in Hv. destruct (evg rho false e1) as [x|] eqn:E1; [|discriminate].
     destruct (evg rho false e2) as [y|] eqn:E2; [|discriminate].
@@ -135,8 +219,122 @@ Proof.
       apply evg_Num_inv in E2 as [q [-> ->]].
       destruct (xq_is_zero (Fin q)) eqn:Zq; [apply in_b_unbounded|].
       apply b_div_by_sound; assumption.
-  - destruct op; try discriminate. rewrite evg_Neg in Hv. destruct (evg rho false e) as [w|] eqn:E; [|discriminate].
-    inversion Hv; subst. cbn [bounds_of]. apply b_neg_sound. apply IHe; [exact H|exact A|reflexivity].
+  - cbn [okexp xvars] in *. destruct op; try discriminate. rewrite evg_Neg in Hv. destruct (evg rho false e) as [w|] eqn:E; [|discriminate].
+    inversion Hv; subst. cbn [bounds_of]. apply b_neg_sound. apply IHe; [exact H0|exact A|reflexivity].
+Qed.
+
+(* ---------- bounds_of reads the box on the variables of the expression only *)
+Lemma fold_bounds_ext (f : xq -> xq -> xq) a a' : forall l cur,
+  Forall (fun e => bounds_of a e = bounds_of a' e) l ->
+  fold_left (fun cur nx => let b := bounds_of a nx in mkB (f (lo cur) (lo b)) (f (hi cur) (hi b))) l cur =
+  fold_left (fun cur nx => let b := bounds_of a' nx in mkB (f (lo cur) (lo b)) (f (hi cur) (hi b))) l cur.
+Proof.
+  induction l as [|x l IH]; intros cur F; [reflexivity|]. inversion F as [|? ? Fx Fl]; subst. cbn [fold_left]. cbv zeta. rewrite Fx. apply IH. exact Fl.
+Qed.
+Lemma bounds_of_ext a a' : forall e, (forall n, In n (xvars e) -> a_get a n = a_get a' n) -> bounds_of a e = bounds_of a' e.
+Proof.
+  induction e using exp_ind'; intros A; try reflexivity.
+  - cbn [bounds_of]. apply A. left. reflexivity.
+  - cbn [bounds_of xvars] in *. rewrite (IHe A). reflexivity.
+  - rewrite xvars_Min in A. destruct l as [|x l]; [reflexivity|].
+    assert (F : Forall (fun e => bounds_of a e = bounds_of a' e) (x :: l)).
+    { apply Forall_forall. intros e He. apply (proj1 (Forall_forall _ _) H e He). intros n Hn. apply A. apply in_flat_map. exists e. split; assumption. }
+    inversion F as [|? ? Fx Fl]; subst. cbn [bounds_of]. rewrite Fx. apply fold_bounds_ext. exact Fl.
+  - rewrite xvars_Max in A. destruct l as [|x l]; [reflexivity|].
+    assert (F : Forall (fun e => bounds_of a e = bounds_of a' e) (x :: l)).
+    { apply Forall_forall. intros e He. apply (proj1 (Forall_forall _ _) H e He). intros n Hn. apply A. apply in_flat_map. exists e. split; assumption. }
+    inversion F as [|? ? Fx Fl]; subst. cbn [bounds_of]. rewrite Fx. apply fold_bounds_ext. exact Fl.
+  - cbn [xvars] in A.
+    assert (E1 : bounds_of a e1 = bounds_of a' e1) by (apply IHe1; intros n Hn; apply A; apply in_or_app; left; exact Hn).
+    assert (E2 : bounds_of a e2 = bounds_of a' e2) by (apply IHe2; intros n Hn; apply A; apply in_or_app; right; exact Hn).
+    destruct op; cbn [bounds_of]; try reflexivity; try (rewrite E1, E2; reflexivity).
+    all: try (destruct e2; try reflexivity; rewrite E1; reflexivity).
+    all: try (destruct e1; try (destruct e2; try reflexivity; rewrite E1; reflexivity); try (rewrite E2; reflexivity)).
+  - destruct op; [|reflexivity]. cbn [bounds_of xvars] in *. rewrite (IHe A). reflexivity.
+Qed.
+
+(* ---------- no operand of a min / max is pruned as dominated (a side condition of the fragment, decided on the state) *)
+Fixpoint list_nat_eqb (a b : list nat) : bool :=
+  match a, b with
+  | [], [] => true
+  | x :: xs, y :: ys => Nat.eqb x y && list_nat_eqb xs ys
+  | _, _ => false
+  end.
+Lemma list_nat_eqb_eq a : forall b, list_nat_eqb a b = true -> a = b.
+Proof.
+  induction a as [|x xs IH]; intros [|y ys] H; try discriminate; [reflexivity|]. cbn in H. apply andb_true_iff in H as [H1 H2].
+  apply Nat.eqb_eq in H1. subst. f_equal. apply IH. exact H2.
+Qed.
+Fixpoint noprune (an : astate) (e : exp) : bool :=
+  match e with
+  | BinOp _ a b => noprune an a && noprune an b
+  | UnOp _ x | Abs x => noprune an x
+  | Max l => (fix all (l : list exp) : bool := match l with [] => true | x :: xs => noprune an x && all xs end) l
+             && list_nat_eqb (retained_indices KMax (map (bounds_of an) l)) (seq O (List.length l))
+  | Min l => (fix all (l : list exp) : bool := match l with [] => true | x :: xs => noprune an x && all xs end) l
+             && list_nat_eqb (retained_indices KMin (map (bounds_of an) l)) (seq O (List.length l))
+  | _ => true
+  end.
+Lemma noprune_list an l : (fix all (l : list exp) : bool := match l with [] => true | x :: xs => noprune an x && all xs end) l = forallb (noprune an) l.
+Proof. induction l as [|x xs IH]; [reflexivity|]. cbn [forallb]. rewrite <- IH. reflexivity. Qed.
+Lemma noprune_Max an l : noprune an (Max l) = forallb (noprune an) l && list_nat_eqb (retained_indices KMax (map (bounds_of an) l)) (seq O (List.length l)).
+Proof. cbn [noprune]. rewrite noprune_list. reflexivity. Qed.
+Lemma noprune_Min an l : noprune an (Min l) = forallb (noprune an) l && list_nat_eqb (retained_indices KMin (map (bounds_of an) l)) (seq O (List.length l)).
+Proof. cbn [noprune]. rewrite noprune_list. reflexivity. Qed.
+Lemma forallb_ext_in (p q : exp -> bool) l : Forall (fun e => p e = q e) l -> forallb p l = forallb q l.
+Proof. induction 1 as [|x l Hx _ IH]; [reflexivity|]. cbn [forallb]. rewrite Hx, IH. reflexivity. Qed.
+Lemma map_ext_Forall {B} (f g : exp -> B) l : Forall (fun e => f e = g e) l -> map f l = map g l.
+Proof. induction 1 as [|x l Hx _ IH]; [reflexivity|]. cbn [map]. rewrite Hx, IH. reflexivity. Qed.
+Lemma noprune_ext a a' : forall e, (forall n, In n (xvars e) -> a_get a n = a_get a' n) -> noprune a e = noprune a' e.
+Proof.
+  induction e using exp_ind'; intros A; try reflexivity.
+  - cbn [noprune xvars] in *. exact (IHe A).
+  - rewrite xvars_Min in A. rewrite !noprune_Min.
+    assert (F1 : Forall (fun e => noprune a e = noprune a' e) l).
+    { apply Forall_forall. intros e He. apply (proj1 (Forall_forall _ _) H e He). intros n Hn. apply A. apply in_flat_map. exists e. split; assumption. }
+    assert (F2 : Forall (fun e => bounds_of a e = bounds_of a' e) l).
+    { apply Forall_forall. intros e He. apply bounds_of_ext. intros n Hn. apply A. apply in_flat_map. exists e. split; assumption. }
+    rewrite (forallb_ext_in _ _ _ F1), (map_ext_Forall _ _ _ F2). reflexivity.
+  - rewrite xvars_Max in A. rewrite !noprune_Max.
+    assert (F1 : Forall (fun e => noprune a e = noprune a' e) l).
+    { apply Forall_forall. intros e He. apply (proj1 (Forall_forall _ _) H e He). intros n Hn. apply A. apply in_flat_map. exists e. split; assumption. }
+    assert (F2 : Forall (fun e => bounds_of a e = bounds_of a' e) l).
+    { apply Forall_forall. intros e He. apply bounds_of_ext. intros n Hn. apply A. apply in_flat_map. exists e. split; assumption. }
+    rewrite (forallb_ext_in _ _ _ F1), (map_ext_Forall _ _ _ F2). reflexivity.
+  - cbn [noprune xvars] in *. rewrite IHe1, IHe2; [reflexivity| |]; intros n Hn; apply A; apply in_or_app; [right|left]; exact Hn.
+  - cbn [noprune xvars] in *. exact (IHe A).
+Qed.
+
+(* ---------- n-ary extremes *)
+Lemma fold_max_ge : forall vs v x, In x (v :: vs) -> x <= fold_left Rmax vs v.
+Proof.
+  induction vs as [|y vs IH]; intros v x Hin; cbn [fold_left].
+  - destruct Hin as [->|[]]. lra.
+  - destruct Hin as [->|[->|Hin]].
+    + apply Rle_trans with (Rmax x y); [apply Rmax_l|]. apply IH. left. reflexivity.
+    + apply Rle_trans with (Rmax v x); [apply Rmax_r|]. apply IH. left. reflexivity.
+    + apply IH. right. exact Hin.
+Qed.
+Lemma fold_max_in : forall vs v, In (fold_left Rmax vs v) (v :: vs).
+Proof.
+  induction vs as [|y vs IH]; intros v; cbn [fold_left]; [left; reflexivity|].
+  destruct (IH (Rmax v y)) as [E|Hin]; [|right; right; exact Hin].
+  rewrite <- E. unfold Rmax. destruct (Rle_dec v y); [right; left; reflexivity|left; reflexivity].
+Qed.
+Lemma fold_min_le : forall vs v x, In x (v :: vs) -> fold_left Rmin vs v <= x.
+Proof.
+  induction vs as [|y vs IH]; intros v x Hin; cbn [fold_left].
+  - destruct Hin as [->|[]]. lra.
+  - destruct Hin as [->|[->|Hin]].
+    + apply Rle_trans with (Rmin x y); [|apply Rmin_l]. apply IH. left. reflexivity.
+    + apply Rle_trans with (Rmin v x); [|apply Rmin_r]. apply IH. left. reflexivity.
+    + apply IH. right. exact Hin.
+Qed.
+Lemma fold_min_in : forall vs v, In (fold_left Rmin vs v) (v :: vs).
+Proof.
+  induction vs as [|y vs IH]; intros v; cbn [fold_left]; [left; reflexivity|].
+  destruct (IH (Rmin v y)) as [E|Hin]; [|right; right; exact Hin].
+  rewrite <- E. unfold Rmin. destruct (Rle_dec v y); [left; reflexivity|right; left; reflexivity].
 Qed.
 
 (* ---------- what a linearization requirement promises *)
@@ -633,6 +831,152 @@ Section AbsArm2.
   Qed.
 End AbsArm2.
 
+(* ---------- lists of state changes *)
+Definition addcs (s : lst) (cs : list constr) : lst := fold_left addc cs s.
+Lemma dom_addcs : forall cs s, s_dom (addcs s cs) = s_dom s /\ s_an (addcs s cs) = s_an s /\ s_rows (addcs s cs) = s_rows s /\ s_queue (addcs s cs) = rev cs ++ s_queue s.
+Proof.
+  induction cs as [|c cs IH]; intros s; [repeat split; reflexivity|]. cbn [addcs fold_left]. destruct (IH (addc s c)) as [A [B [C D]]].
+  unfold addcs in *. rewrite A, B, C, D. cbn [addc s_dom s_an s_rows s_queue rev]. rewrite <- app_assoc. repeat split; reflexivity.
+Qed.
+Lemma keys_addcs s cs : keys (addcs s cs) = keys s.
+Proof. unfold keys. rewrite (proj1 (dom_addcs cs s)). reflexivity. Qed.
+Lemma grows_addcs : forall cs s, grows s (addcs s cs).
+Proof. induction cs as [|c cs IH]; intros s; [apply grows_refl|]. cbn [addcs fold_left]. eapply grows_trans; [apply grows_addc|apply IH]. Qed.
+Lemma INV_addcs : forall cs s, INV s -> Forall (cgood (keys s)) cs -> INV (addcs s cs).
+Proof.
+  induction cs as [|c cs IH]; intros s I F; [exact I|]. inversion F as [|? ? Fc Fcs]; subst. cbn [addcs fold_left].
+  apply IH; [apply INV_addc; assumption|exact Fcs].
+Qed.
+Lemma st_sat_addcs : forall cs s sigma, st_sat s sigma -> (forall c, In c cs -> sat_constr sigma c) -> st_sat (addcs s cs) sigma.
+Proof.
+  induction cs as [|c cs IH]; intros s sigma S H; [exact S|]. cbn [addcs fold_left].
+  apply IH; [apply st_sat_addc; [exact S|apply H; left; reflexivity]|intros c' Hc'; apply H; right; exact Hc'].
+Qed.
+Lemma addcs_in s cs c : In c cs -> In c (s_queue (addcs s cs)).
+Proof. intros H. rewrite (proj2 (proj2 (proj2 (dom_addcs cs s)))). apply in_or_app. left. apply in_rev in H. exact H. Qed.
+
+Lemma iterM_fold {A} (F : A -> M unit) (step : A -> lst -> lst) : (forall x s, F x s = inr (tt, step x s)) ->
+  forall l s, iterM F l s = inr (tt, fold_left (fun s x => step x s) l s).
+Proof.
+  intros HF. induction l as [|x l IH]; intros s; [reflexivity|]. cbn [iterM fold_left]. unfold bind. rewrite HF. apply IH.
+Qed.
+Lemma fold_addc1 {A} (f : A -> constr) : forall l s, fold_left (fun s x => addc s (f x)) l s = addcs s (map f l).
+Proof. induction l as [|x l IH]; intros s; [reflexivity|]. cbn [fold_left map addcs]. rewrite IH. reflexivity. Qed.
+Lemma fold_addc2 {A} (f g : A -> constr) : forall l s,
+  fold_left (fun s x => addc (addc s (f x)) (g x)) l s = addcs s (flat_map (fun x => [f x; g x]) l).
+Proof. induction l as [|x l IH]; intros s; [reflexivity|]. cbn [fold_left flat_map app addcs]. rewrite IH. reflexivity. Qed.
+
+Definition decls (s : lst) (ns : list string) (t : vtype) : lst := fold_left (fun s k => decl s k t) ns s.
+Lemma iterM_decl {A} (nm : A -> string) t : forall l s u s',
+  iterM (fun x => declare_variable (nm x) t) l s = inr (u, s') ->
+  s' = decls s (map nm l) t /\ NoDup (map nm l) /\ (forall k, In k (map nm l) -> ~ In k (keys s)).
+Proof.
+  induction l as [|x l IH]; intros s u s' H.
+  - inversion H; subst. split; [reflexivity|]. split; [constructor|intros k []].
+  - cbn [iterM] in H. unfold bind in H. unfold declare_variable at 1 in H. destruct (al_mem (s_dom s) (nm x)) eqn:Mx; [discriminate|].
+    fold (decl s (nm x) t) in H. destruct (IH _ _ _ H) as [E [ND Fr]]. cbn [map]. split; [exact E|]. split.
+    + constructor; [|exact ND]. intros Hin. apply (Fr _ Hin). rewrite keys_decl. apply in_or_app. right. left. reflexivity.
+    + intros k [<-|Hk]; [apply al_mem_false_notin; exact Mx|]. intros Hin. apply (Fr _ Hk). rewrite keys_decl. apply in_or_app. left. exact Hin.
+Qed.
+Lemma notin_mem_false s k : ~ In k (keys s) -> al_mem (s_dom s) k = false.
+Proof.
+  intros H. destruct (al_mem (s_dom s) k) eqn:E; [|reflexivity]. exfalso. apply H. unfold al_mem in E.
+  destruct (al_get (s_dom s) k) as [d|] eqn:G; [|discriminate]. apply al_get_In in G. apply in_map_iff. exists (k, d). split; [reflexivity|exact G].
+Qed.
+Lemma in_keys_mem s k : In k (keys s) -> al_mem (s_dom s) k = true.
+Proof. intros H. destruct (al_mem (s_dom s) k) eqn:E; [reflexivity|]. exfalso. exact (al_mem_false_notin _ _ E H). Qed.
+Lemma keys_decls : forall ns s t, keys (decls s ns t) = keys s ++ ns.
+Proof.
+  induction ns as [|k ns IH]; intros s t; [rewrite app_nil_r; reflexivity|]. cbn [decls fold_left]. fold (decls (decl s k t) ns t).
+  rewrite IH, keys_decl, <- app_assoc. reflexivity.
+Qed.
+Lemma decls_ok : forall ns s t, INV s -> NoDup ns -> (forall k, In k ns -> ~ In k (keys s)) ->
+  INV (decls s ns t) /\ grows s (decls s ns t).
+Proof.
+  induction ns as [|k ns IH]; intros s t I ND Fr; [split; [exact I|apply grows_refl]|]. inversion ND as [|? ? Nk ND']; subst.
+  cbn [decls fold_left]. fold (decls (decl s k t) ns t).
+  assert (Mk : al_mem (s_dom s) k = false) by (apply notin_mem_false; apply Fr; left; reflexivity).
+  destruct (IH (decl s k t) t (INV_decl s k t I Mk) ND') as [I' G'].
+  { intros k' Hk' Hin. rewrite keys_decl in Hin. apply in_app_or in Hin as [Hin|[<-|[]]]; [exact (Fr k' (or_intror Hk') Hin)|contradiction]. }
+  split; [exact I'|eapply grows_trans; [apply grows_decl; exact Mk|exact G']].
+Qed.
+Definition updL (sigma : string -> R) (ns : list string) (vals : string -> R) : string -> R :=
+  fun k => if set_mem ns k then vals k else sigma k.
+Lemma decls_sat : forall ns s t sigma vals, INV s -> NoDup ns -> (forall k, In k ns -> ~ In k (keys s)) ->
+  (forall k, In k ns -> in_dom t (vals k)) -> st_sat s sigma -> st_sat (decls s ns t) (updL sigma ns vals).
+Proof.
+  intros ns s t sigma vals I ND Fr Hv S.
+  assert (A : forall k, In k (keys s) -> sigma k = updL sigma ns vals k).
+  { intros k Hk. unfold updL. destruct (set_mem ns k) eqn:E; [|reflexivity]. apply set_mem_In in E. exfalso. exact (Fr k E Hk). }
+  pose proof (st_sat_agree s sigma _ I A S) as [Q [Rw D]].
+  assert (Hq : s_queue (decls s ns t) = s_queue s /\ s_rows (decls s ns t) = s_rows s /\ s_dom (decls s ns t) = s_dom s ++ map (fun k => (k, mkDV t true)) ns).
+  { clear. revert s. induction ns as [|k ns IH]; intros s; [cbn; rewrite app_nil_r; auto|]. cbn [decls fold_left]. fold (decls (decl s k t) ns t).
+    destruct (IH (decl s k t)) as [A [B C]]. rewrite A, B, C. cbn [decl s_queue s_rows s_dom map]. rewrite <- app_assoc. auto. }
+  destruct Hq as [Eq [Er Ed]]. split; [rewrite Eq; exact Q|]. split; [rewrite Er; exact Rw|].
+  intros k d Hin. rewrite Ed in Hin. apply in_app_or in Hin as [Hin|Hin]; [exact (D k d Hin)|].
+  apply in_map_iff in Hin as [k0 [E Hk0]]. inversion E; subst. cbn [dv_type]. unfold updL.
+  rewrite (proj2 (set_mem_In ns k) Hk0). apply Hv. exact Hk0.
+Qed.
+Lemma updL_other sigma ns vals k : ~ In k ns -> updL sigma ns vals k = sigma k.
+Proof. intros H. unfold updL. destruct (set_mem ns k) eqn:E; [apply set_mem_In in E; contradiction|reflexivity]. Qed.
+Lemma updL_in sigma ns vals k : In k ns -> updL sigma ns vals k = vals k.
+Proof. intros H. unfold updL. rewrite (proj2 (set_mem_In ns k) H). reflexivity. Qed.
+
+(* sums of selector variables *)
+Lemma ev_sum_vars sigma : forall ks e0 v0, ev sigma e0 = Some v0 ->
+  ev sigma (fold_left add_exp (map Var ks) e0) = Some (v0 + ArmLemmas.rsum (map sigma ks)).
+Proof.
+  induction ks as [|k ks IH]; intros e0 v0 H0; cbn [map fold_left ArmLemmas.rsum]; [rewrite H0; f_equal; lra|].
+  rewrite (IH (add_exp e0 (Var k)) (v0 + sigma k)); [f_equal; lra|].
+  unfold ev, add_exp in *. rewrite evg_BinOp, H0, evg_Var. reflexivity.
+Qed.
+Lemma ev_sum_exps_vars sigma ks : ks <> [] -> ev sigma (sum_exps (map Var ks)) = Some (ArmLemmas.rsum (map sigma ks)).
+Proof.
+  destruct ks as [|k ks]; [contradiction|]. intros _. cbn [map sum_exps ArmLemmas.rsum].
+  rewrite (ev_sum_vars sigma ks (Var k) (sigma k)); reflexivity.
+Qed.
+Lemma rsum_one_exists l : Forall bin l -> ArmLemmas.rsum l = 1 -> In 1 l.
+Proof.
+  induction 1 as [|x l [->| ->] _ IH]; cbn [ArmLemmas.rsum]; intros H; [lra| |left; reflexivity].
+  right. apply IH. lra.
+Qed.
+Lemma rsum_indicator (kj : string) : forall ns, NoDup ns -> In kj ns ->
+  ArmLemmas.rsum (map (fun k => if String.eqb k kj then 1 else 0) ns) = 1.
+Proof.
+  induction ns as [|k ns IH]; intros ND Hin; [destruct Hin|]. inversion ND as [|? ? Nk ND']; subst. cbn [map ArmLemmas.rsum].
+  destruct (String.eqb k kj) eqn:E.
+  - apply String.eqb_eq in E. subst k.
+    assert (Z : ArmLemmas.rsum (map (fun k => if String.eqb k kj then 1 else 0) ns) = 0).
+    { clear -Nk. induction ns as [|k ns IH]; [reflexivity|]. cbn [map ArmLemmas.rsum]. destruct (String.eqb k kj) eqn:E.
+      - apply String.eqb_eq in E. subst. exfalso. apply Nk. left. reflexivity.
+      - rewrite IH; [lra|]. intros H. apply Nk. right. exact H. }
+    rewrite Z. lra.
+  - destruct Hin as [->|Hin]; [rewrite String.eqb_refl in E; discriminate|]. rewrite (IH ND' Hin). lra.
+Qed.
+
+(* positions in zipped lists *)
+Lemma combine3_nth {A B C} (l1 : list A) (l2 : list B) (l3 : list C) d1 d2 d3 t :
+  List.length l1 = List.length l2 -> List.length l2 = List.length l3 -> In t (combine (combine l1 l2) l3) ->
+  exists i, (i < List.length l1)%nat /\ t = ((nth i l1 d1, nth i l2 d2), nth i l3 d3).
+Proof.
+  intros L12 L23 Hin. destruct (In_nth _ _ ((d1, d2), d3) Hin) as [i [Hi E]]. exists i.
+  rewrite combine_length, combine_length in Hi. split; [lia|].
+  rewrite combine_nth in E by (rewrite combine_length; lia). rewrite combine_nth in E by exact L12. symmetry. exact E.
+Qed.
+Lemma combine3_in {A B C} (l1 : list A) (l2 : list B) (l3 : list C) d1 d2 d3 i :
+  List.length l1 = List.length l2 -> List.length l2 = List.length l3 -> (i < List.length l1)%nat ->
+  In ((nth i l1 d1, nth i l2 d2), nth i l3 d3) (combine (combine l1 l2) l3).
+Proof.
+  intros L12 L23 Hi. rewrite <- combine_nth by exact L12. rewrite <- combine_nth by (rewrite combine_length; lia).
+  apply nth_In. rewrite !combine_length. lia.
+Qed.
+Lemma map_nth_seq {A} (l : list A) d : map (fun i => nth i l d) (seq O (List.length l)) = l.
+Proof.
+  apply nth_ext with (d := d) (d' := d); [rewrite map_length, seq_length; reflexivity|].
+  intros i Hi. rewrite map_length, seq_length in Hi. rewrite (nth_indep _ d (nth 0 l d)) by (rewrite map_length, seq_length; exact Hi).
+  rewrite (map_nth (fun i => nth i l d) (seq O (List.length l)) O i). rewrite seq_nth by exact Hi. reflexivity.
+Qed.
+
 Lemma rel_div r q x vx : Q2R q <> 0 -> rel (through_scale r (Fin q)) x vx -> rel r (x / Q2R q) (vx / Q2R q).
 Proof.
   intros NZ. unfold through_scale, Rdiv. cbn [xq_ltb]. destruct (q_ltb q 0) eqn:L.
@@ -652,11 +996,725 @@ Qed.
 Lemma ev_Num_inv sigma x v : ev sigma (Num x) = Some v -> exists q, x = Fin q /\ v = Q2R q.
 Proof. apply evg_Num_inv. Qed.
 
-Theorem lin_ok : forall n e r s c s', okexp e = true -> INV s -> incl (xvars e) (keys s) -> tot e ->
+Lemma grows_aget s s' k : grows s s' -> In k (keys s) -> a_get (s_an s') k = a_get (s_an s) k.
+Proof. intros [[_ _ B] _] Hk. apply B. apply in_keys_mem. exact Hk. Qed.
+Lemma noprune_grows s s' e : grows s s' -> incl (xvars e) (keys s) -> noprune (s_an s') e = noprune (s_an s) e.
+Proof. intros G Ix. apply noprune_ext. intros k Hk. apply (grows_aget s s' k G). apply Ix. exact Hk. Qed.
+Lemma bounds_of_grows s s' e : grows s s' -> incl (xvars e) (keys s) -> bounds_of (s_an s') e = bounds_of (s_an s) e.
+Proof. intros G Ix. apply bounds_of_ext. intros k Hk. apply (grows_aget s s' k G). apply Ix. exact Hk. Qed.
+
+Lemma tot_list_max l : tot (Max l) -> Forall tot l.
+Proof.
+  intros H. apply Forall_forall. intros e He sigma. destruct (H sigma) as [v Hv]. unfold ev in *. rewrite evg_Max in Hv.
+  destruct (evlist sigma false l) as [vs|] eqn:E; [|discriminate]. clear Hv H. revert vs E. induction l as [|x l IH]; intros vs E; [destruct He|].
+  cbn [evlist] in E. destruct (evg sigma false x) as [vx|] eqn:Ex; [|discriminate]. destruct (evlist sigma false l) as [vs'|] eqn:El; [|discriminate].
+  destruct He as [<-|He]; [eauto|exact (IH He vs' eq_refl)].
+Qed.
+Lemma tot_list_min l : tot (Min l) -> Forall tot l.
+Proof.
+  intros H. apply Forall_forall. intros e He sigma. destruct (H sigma) as [v Hv]. unfold ev in *. rewrite evg_Min in Hv.
+  destruct (evlist sigma false l) as [vs|] eqn:E; [|discriminate]. clear Hv H. revert vs E. induction l as [|x l IH]; intros vs E; [destruct He|].
+  cbn [evlist] in E. destruct (evg sigma false x) as [vx|] eqn:Ex; [|discriminate]. destruct (evlist sigma false l) as [vs'|] eqn:El; [|discriminate].
+  destruct He as [<-|He]; [eauto|exact (IH He vs' eq_refl)].
+Qed.
+Lemma evlist_len sigma t : forall l vs, evlist sigma t l = Some vs -> List.length vs = List.length l.
+Proof.
+  induction l as [|x l IH]; intros vs E; cbn [evlist] in E; [inversion E; reflexivity|].
+  destruct (evg sigma t x); [|discriminate]. destruct (evlist sigma t l) as [vs'|]; [|discriminate]. inversion E; subst. cbn. rewrite (IH vs' eq_refl). reflexivity.
+Qed.
+Lemma evlist_nth sigma : forall l vs i, evlist sigma false l = Some vs -> (i < List.length l)%nat ->
+  ev sigma (nth i l (Num NaN)) = Some (nth i vs 0).
+Proof.
+  induction l as [|x l IH]; intros vs i E Hi; [cbn in Hi; lia|]. cbn [evlist] in E.
+  destruct (evg sigma false x) as [vx|] eqn:Ex; [|discriminate]. destruct (evlist sigma false l) as [vs'|] eqn:El; [|discriminate]. inversion E; subst.
+  destruct i as [|i]; [exact Ex|]. cbn [nth]. apply IH; [reflexivity|cbn in Hi; lia].
+Qed.
+Lemma evlist_agree_ok rho sigma l : forallb okexp l = true -> (forall k, In k (flat_map xvars l) -> rho k = sigma k) ->
+  evlist rho false l = evlist sigma false l.
+Proof.
+  intros O A. apply evlist_agree. apply Forall_forall. intros e He. apply ev_agree; [exact (proj1 (forallb_forall _ _) O e He)|].
+  intros k Hk. apply A. apply in_flat_map. exists e. split; assumption.
+Qed.
+
+Lemma Forall2_nth {A B} (P : A -> B -> Prop) l m da db i : Forall2 P l m -> (i < List.length l)%nat -> P (nth i l da) (nth i m db).
+Proof.
+  intros F. revert i. induction F as [|x y l m Hxy _ IH]; intros i Hi; [cbn in Hi; lia|]. destruct i as [|i]; [exact Hxy|]. cbn [nth]. apply IH. cbn in Hi. lia.
+Qed.
+Lemma Forall2_len {A B} (P : A -> B -> Prop) l m : Forall2 P l m -> List.length l = List.length m.
+Proof. induction 1; cbn; congruence. Qed.
+Lemma dom_decls : forall ns s t, s_queue (decls s ns t) = s_queue s /\ s_rows (decls s ns t) = s_rows s /\
+  s_dom (decls s ns t) = s_dom s ++ map (fun k => (k, mkDV t true)) ns.
+Proof.
+  induction ns as [|k ns IH]; intros s t; [cbn; rewrite app_nil_r; auto|]. cbn [decls fold_left]. fold (decls (decl s k t) ns t).
+  destruct (IH (decl s k t) t) as [A [B C]]. rewrite A, B, C. cbn [decl s_queue s_rows s_dom map]. rewrite <- app_assoc. auto.
+Qed.
+Lemma plainA_sum_vars : forall ks e0, plainA e0 = true -> plainA (fold_left add_exp (map Var ks) e0) = true.
+Proof. induction ks as [|k ks IH]; intros e0 H; [exact H|]. cbn [map fold_left]. apply IH. cbn [add_exp plainA]. rewrite H. reflexivity. Qed.
+Lemma xvars_sum_vars : forall ks e0, xvars (fold_left add_exp (map Var ks) e0) = xvars e0 ++ ks.
+Proof.
+  induction ks as [|k ks IH]; intros e0; [rewrite app_nil_r; reflexivity|]. cbn [map fold_left]. rewrite IH. cbn [add_exp xvars]. rewrite <- app_assoc. reflexivity.
+Qed.
+Lemma sum_vars_good K ks : ks <> [] -> incl ks K -> cgood K (mk_c (sum_exps (map Var ks)) Eq (Num (Fin 1%Q))).
+Proof.
+  destruct ks as [|k ks]; [contradiction|]. intros _ Hin. unfold cgood, mk_c. cbn [c_assert c_lhs c_rhs map sum_exps].
+  rewrite plainA_sum_vars by reflexivity. rewrite xvars_sum_vars. cbn [xvars plainA app]. repeat split; try reflexivity; [exact Hin|intros x []].
+Qed.
+Lemma ev_bigm_max sigma o t k p : ev sigma o = Some t ->
+  ev sigma (add_exp o (mul_exp (Num (Fin k)) (sub_exp (Num (Fin 1%Q)) (Var p)))) = Some (t + Q2R k * (1 - sigma p)).
+Proof.
+  unfold ev, add_exp, sub_exp, mul_exp. intros H. rewrite !evg_BinOp, H, !evg_Num_Fin, evg_Var. cbn [ev_binop]. rewrite Q2R_1. reflexivity.
+Qed.
+Lemma ev_bigm_min sigma o t k p : ev sigma o = Some t ->
+  ev sigma (sub_exp o (mul_exp (Num (Fin k)) (sub_exp (Num (Fin 1%Q)) (Var p)))) = Some (t - Q2R k * (1 - sigma p)).
+Proof.
+  unfold ev, sub_exp, mul_exp. intros H. rewrite !evg_BinOp, H, !evg_Num_Fin, evg_Var. cbn [ev_binop]. rewrite Q2R_1. reflexivity.
+Qed.
+Lemma xq_sub_Fin a b : exists c, xq_sub (Fin a) (Fin b) = Fin c /\ Q2R c = Q2R a - Q2R b.
+Proof. eexists. split; [reflexivity|]. rewrite Q2R_qn, Q2R_plus, Q2R_qn, Q2R_opp. lra. Qed.
+
+Section Extreme.
+  Variable n : nat.
+  Hypothesis IHn : forall e r s c s', okexp e = true -> noprune (s_an s) e = true -> INV s -> incl (xvars e) (keys s) -> tot e ->
+    lin n e r s = inr (c, s') -> lin_spec e r s c s'.
+
+  Lemma mapMM_ok oreq : forall es s ops s',
+    forallb okexp es = true -> forallb (noprune (s_an s)) es = true -> INV s -> incl (flat_map xvars es) (keys s) -> Forall tot es ->
+    mapMM (fun e => bind (lin n e oreq) (fun v => ret (context_to_exp v))) es s = inr (ops, s') ->
+    exists cs, ops = map context_to_exp cs /\ List.length cs = List.length es /\ INV s' /\ grows s s' /\ Forall (ctx_ok (keys s')) cs /\ Forall ctx_fin cs /\
+      (forall sigma vs, st_sat s' sigma -> evlist sigma false es = Some vs -> Forall2 (fun c v => rel oreq (ctx_val sigma c) v) cs vs) /\
+      (forall rho vs, st_sat s rho -> evlist rho false es = Some vs ->
+         exists sigma, (forall k, In k (keys s) -> sigma k = rho k) /\ st_sat s' sigma /\ Forall2 (fun c v => ctx_val sigma c = v) cs vs).
+  Proof.
+    induction es as [|x xs IH]; intros s ops s' O N I Ix T H.
+    - inversion H; subst. exists []. split; [reflexivity|]. split; [reflexivity|]. split; [exact I|]. split; [apply grows_refl|]. split; [constructor|]. split; [constructor|]. split.
+      + intros sigma vs _ E. inversion E; subst. constructor.
+      + intros rho vs S E. inversion E; subst. exists rho. split; [reflexivity|]. split; [exact S|constructor].
+    - cbn [mapMM] in H. unfold bind at 1 2 in H. destruct (lin n x oreq s) as [er|[c1 s1]] eqn:E1; [discriminate|]. unfold ret at 1 in H.
+      unfold bind at 1 in H. destruct (mapMM _ xs s1) as [er|[ys s2]] eqn:E2; [discriminate|]. inversion H; subst ops s'; clear H.
+      cbn [forallb] in O, N. apply andb_true_iff in O as [Ox Oxs]. apply andb_true_iff in N as [Nx Nxs]. inversion T as [|? ? Tx Txs]; subst.
+      cbn [flat_map] in Ix.
+      assert (Ixx : incl (xvars x) (keys s)) by (intros k Hk; apply Ix; apply in_or_app; left; exact Hk).
+      assert (Ixs : incl (flat_map xvars xs) (keys s)) by (intros k Hk; apply Ix; apply in_or_app; right; exact Hk).
+      destruct (IHn _ _ _ _ _ Ox Nx I Ixx Tx E1) as [I1 [G1 [K1 [F1 [S1 C1]]]]].
+      assert (Nxs1 : forallb (noprune (s_an s1)) xs = true).
+      { rewrite <- Nxs. apply forallb_ext_in. apply Forall_forall. intros e He. apply noprune_grows; [exact G1|].
+        intros k Hk. apply Ixs. apply in_flat_map. exists e. split; assumption. }
+      destruct (IH s1 ys s2 Oxs Nxs1 I1 (fun k Hk => grows_keys _ _ G1 k (Ixs k Hk)) Txs E2) as [cs [Eo [Ln [I2 [G2 [K2 [F2 [S2 C2]]]]]]]].
+      exists (c1 :: cs). split; [cbn [map]; rewrite Eo; reflexivity|]. split; [cbn [List.length]; rewrite Ln; reflexivity|]. split; [exact I2|]. split; [eapply grows_trans; eassumption|].
+      split; [constructor; [eapply ctx_ok_mono; [apply grows_keys; exact G2|exact K1]|exact K2]|]. split; [constructor; assumption|]. split.
+      + intros sigma vs S E. cbn [evlist] in E. destruct (evg sigma false x) as [vx|] eqn:Ex; [|discriminate].
+        destruct (evlist sigma false xs) as [vs'|] eqn:El; [|discriminate]. inversion E; subst vs. constructor.
+        * apply S1; [exact (st_sat_back _ _ _ G2 S)|exact Ex].
+        * apply S2; [exact S|exact El].
+      + intros rho vs S E. cbn [evlist] in E. destruct (evg rho false x) as [vx|] eqn:Ex; [|discriminate].
+        destruct (evlist rho false xs) as [vs'|] eqn:El; [|discriminate]. inversion E; subst vs.
+        destruct (C1 rho vx S Ex) as [sg1 [A1 [S1' V1]]].
+        assert (El1 : evlist sg1 false xs = Some vs').
+        { rewrite <- El. apply evlist_agree_ok; [exact Oxs|]. intros k Hk. apply A1. apply Ixs. exact Hk. }
+        destruct (C2 sg1 vs' S1' El1) as [sg2 [A2 [S2' V2]]]. exists sg2.
+        split; [intros k Hk; rewrite A2 by (apply (grows_keys _ _ G1); exact Hk); apply A1; exact Hk|]. split; [exact S2'|].
+        constructor; [|exact V2]. rewrite <- V1. apply ctx_val_agree. intros k Hk. apply A2. destruct K1 as [_ K1]. apply K1. exact Hk.
+  Qed.
+  Lemma ev_max_inv sigma l v : ev sigma (Max l) = Some v -> exists v0 vs, evlist sigma false l = Some (v0 :: vs) /\ v = fold_left Rmax vs v0.
+  Proof.
+    unfold ev. rewrite evg_Max. destruct (evlist sigma false l) as [[|v0 vs]|]; try discriminate. cbn [fold_max]. intros H. inversion H. eauto.
+  Qed.
+  Lemma ev_min_inv sigma l v : ev sigma (Min l) = Some v -> exists v0 vs, evlist sigma false l = Some (v0 :: vs) /\ v = fold_left Rmin vs v0.
+  Proof.
+    unfold ev. rewrite evg_Min. destruct (evlist sigma false l) as [[|v0 vs]|]; try discriminate. cbn [fold_min]. intros H. inversion H. eauto.
+  Qed.
+  Lemma ops_cgood K var (cmpk : cmp) cs : In var K -> Forall (ctx_ok K) cs -> Forall ctx_fin cs ->
+    Forall (cgood K) (map (fun o => mk_c (Var var) cmpk o) (map context_to_exp cs)).
+  Proof.
+    intros Hv Kc Fc. apply Forall_forall. intros c Hc. apply in_map_iff in Hc as [o [<- Ho]]. apply in_map_iff in Ho as [cx [<- Hcx]].
+    pose proof (proj1 (Forall_forall _ _) Kc cx Hcx) as [_ Kx]. pose proof (proj1 (Forall_forall _ _) Fc cx Hcx) as Fx.
+    unfold cgood, mk_c. cbn [c_assert c_lhs c_rhs plainA xvars]. rewrite (plainA_ctx cx Fx), xvars_ctx.
+    repeat split; try reflexivity; [intros k [<-|[]]; exact Hv|exact Kx].
+  Qed.
+
+  Section MaxArm.
+    Variables (exps : list exp) (s0 : lst) (cnt : list (string * N)) (var : string).
+    Let eb := bounds_of (s_an s0) (Max exps).
+    Let T := TReal (lo eb) (hi eb).
+    Let s1 := decl (set_cnt s0 cnt) var T.
+    Hypothesis Oe : forallb okexp exps = true.
+    Hypothesis Ne : exps <> [].
+    Hypothesis Np : forallb (noprune (s_an s0)) exps = true.
+    Hypothesis I0 : INV s0.
+    Hypothesis Ix : incl (flat_map xvars exps) (keys s0).
+    Hypothesis Tt : Forall tot exps.
+    Hypothesis Mv : al_mem (s_dom s0) var = false.
+
+    Lemma max_bounds rho v : st_sat s0 rho -> ev rho (Max exps) = Some v -> in_b eb v.
+    Proof.
+      intros [_ [_ D]] Hv. apply (bounds_of_on (s_an s0) rho (Max exps) v); [|intros k Hk; rewrite xvars_Max in Hk; apply (inv_box s0 I0 rho D); apply Ix; exact Hk|exact Hv].
+      rewrite okexp_Max. destruct exps; [contradiction|exact Oe].
+    Qed.
+    Lemma max_setup : INV s1 /\ grows s0 s1 /\ In var (keys s1) /\ forallb (noprune (s_an s1)) exps = true /\ incl (flat_map xvars exps) (keys s1).
+    Proof.
+      assert (I1 : INV s1) by (apply INV_decl; [apply INV_set_cnt; exact I0|exact Mv]).
+      assert (G : grows s0 s1) by (eapply grows_trans; [apply grows_set_cnt|apply grows_decl; exact Mv]).
+      split; [exact I1|]. split; [exact G|]. split; [unfold s1; rewrite keys_decl; apply in_or_app; right; left; reflexivity|]. split.
+      - rewrite <- Np. apply forallb_ext_in. apply Forall_forall. intros e He. apply noprune_grows; [exact G|].
+        intros k Hk. apply Ix. apply in_flat_map. exists e. split; assumption.
+      - intros k Hk. apply (grows_keys _ _ G). apply Ix. exact Hk.
+    Qed.
+
+    Lemma max_lower ops s2 :
+      mapMM (fun e => bind (lin n e PreferLower) (fun v => ret (context_to_exp v))) exps s1 = inr (ops, s2) ->
+      lin_spec (Max exps) PreferLower s0 (l_from_var var (Fin 1%Q)) (addcs s2 (map (fun o => mk_c (Var var) Ge o) ops)).
+    Proof.
+      intros HM. destruct max_setup as [I1 [G01 [Hv1 [Np1 Ix1]]]].
+      destruct (mapMM_ok PreferLower exps s1 ops s2 Oe Np1 I1 Ix1 Tt HM) as [cs [Eo [_ [I2 [G12 [K2 [F2 [S2 C2]]]]]]]].
+      assert (Hv2 : In var (keys s2)) by (apply (grows_keys _ _ G12); exact Hv1).
+      set (rows := map (fun o => mk_c (Var var) Ge o) ops). set (s3 := addcs s2 rows).
+      assert (Gr : Forall (cgood (keys s2)) rows) by (unfold rows; rewrite Eo; apply ops_cgood; assumption).
+      assert (Hrow : forall c, In c cs -> In (mk_c (Var var) Ge (context_to_exp c)) rows).
+      { intros c Hc. unfold rows. rewrite Eo, map_map. apply in_map_iff. exists c. split; [reflexivity|exact Hc]. }
+      split; [apply INV_addcs; assumption|]. split; [eapply grows_trans; [exact G01|eapply grows_trans; [exact G12|apply grows_addcs]]|].
+      split; [apply from_var_ok; unfold s3; rewrite keys_addcs; exact Hv2|]. split; [exact (proj1 (from_var_one (fun _ => 0) var))|]. split.
+      - intros sigma v S Hv. destruct (ev_max_inv _ _ _ Hv) as [v0 [vs [El ->]]].
+        assert (S2s : st_sat s2 sigma) by exact (st_sat_back _ _ _ (grows_addcs rows s2) S).
+        pose proof (S2 sigma _ S2s El) as F. rewrite (proj2 (from_var_one sigma var)). cbn [rel].
+        destruct (Forall2_in_right _ _ _ _ F (fold_max_in vs v0)) as [c [Hc Hrel]]. cbn [rel] in Hrel.
+        destruct S as [Q _]. destruct (Q _ (addcs_in s2 rows _ (Hrow c Hc))) as [l [r [El' [Er' H]]]].
+        unfold mk_c in El', Er', H. cbn [c_lhs c_rhs c_cmp cmp_holds] in *. rewrite ev_var in El'.
+        rewrite (context_to_exp_sound sigma c (proj1 (Forall_forall _ _) F2 c Hc)) in Er'. injection El' as <-. injection Er' as <-. lra.
+      - intros rho v S Hv. destruct (ev_max_inv _ _ _ Hv) as [v0 [vs [El ->]]]. set (Mx := fold_left Rmax vs v0) in *.
+        pose proof (max_bounds rho Mx S Hv) as Bm.
+        destruct (st_sat_decl (set_cnt s0 cnt) var T rho Mx (INV_set_cnt _ _ I0) Mv Bm S) as [S1' A1]. fold s1 in S1'.
+        set (sg1 := updR rho var Mx) in *.
+        assert (El1 : evlist sg1 false exps = Some (v0 :: vs)).
+        { rewrite <- El. apply evlist_agree_ok; [exact Oe|]. intros k Hk. apply A1. apply Ix. exact Hk. }
+        destruct (C2 sg1 _ S1' El1) as [sg2 [A2 [S2' V2]]].
+        assert (Ev : sg2 var = Mx) by (rewrite A2 by exact Hv1; apply updR_same).
+        exists sg2. split; [intros k Hk; rewrite A2 by (apply (grows_keys _ _ G01); exact Hk); apply A1; exact Hk|].
+        split; [|rewrite (proj2 (from_var_one sg2 var)); exact Ev].
+        apply st_sat_addcs; [exact S2'|]. intros c Hc. unfold rows in Hc. rewrite Eo, map_map in Hc. apply in_map_iff in Hc as [cx [<- Hcx]].
+        destruct (Forall2_in_left _ _ _ _ V2 Hcx) as [w [Hw Ew]].
+        exists (sg2 var), w. unfold mk_c. cbn [c_lhs c_rhs c_cmp cmp_holds]. split; [apply ev_var|].
+        split; [rewrite (context_to_exp_sound sg2 cx (proj1 (Forall_forall _ _) F2 cx Hcx)), Ew; reflexivity|].
+        rewrite Ev. apply Rle_ge. apply fold_max_ge. exact Hw.
+    Qed.
+    (* exact: selectors *)
+    Variables (sel : nat -> string) (U : Q).
+    Hypothesis Hhi : hi eb = Fin U.
+    Hypothesis Hlo : forall e, In e exps -> exists l, lo (bounds_of (s_an s0) e) = Fin l.
+    Let obs := map (bounds_of (s_an s0)) exps.
+    Let fmax (t : (exp * bounds) * exp) : constr := mk_c (Var var) Ge (fst (fst t)).
+    Let gmax (t : (exp * bounds) * exp) : constr :=
+      mk_c (Var var) Le (add_exp (fst (fst t)) (mul_exp (Num (xq_sub (hi eb) (lo (snd (fst t))))) (sub_exp (Num (Fin 1%Q)) (snd t)))).
+
+    Lemma max_exact r ops s2 u3 s3 :
+      mapMM (fun e => bind (lin n e Exact) (fun v => ret (context_to_exp v))) exps s1 = inr (ops, s2) ->
+      iterM (fun i => declare_variable (sel i) TBoolean) (seq O (List.length ops)) s2 = inr (u3, s3) ->
+      let sels := map (fun i => Var (sel i)) (seq O (List.length ops)) in
+      lin_spec (Max exps) r s0 (l_from_var var (Fin 1%Q))
+        (addc (addcs s3 (flat_map (fun t => [fmax t; gmax t]) (combine (combine ops obs) sels))) (mk_c (sum_exps sels) Eq (Num (Fin 1%Q)))).
+    Proof.
+      intros HM HD sels. destruct max_setup as [I1 [G01 [Hv1 [Np1 Ix1]]]].
+      destruct (mapMM_ok Exact exps s1 ops s2 Oe Np1 I1 Ix1 Tt HM) as [cs [Eo [Lc [I2 [G12 [K2 [F2 [S2 C2]]]]]]]].
+      set (m := List.length exps) in *.
+      assert (Lo : List.length ops = m) by (rewrite Eo, map_length; exact Lc).
+      set (ns := map sel (seq O (List.length ops))).
+      assert (Esel : sels = map Var ns) by (unfold sels, ns; rewrite map_map; reflexivity).
+      destruct (iterM_decl sel TBoolean _ _ _ _ HD) as [E3 [NDn Frn]]. fold ns in E3, NDn, Frn.
+      destruct (decls_ok ns s2 TBoolean I2 NDn Frn) as [I3 G23]. rewrite <- E3 in I3, G23.
+      assert (Ln : List.length ns = m) by (unfold ns; rewrite map_length, seq_length; exact Lo).
+      assert (Lb : List.length obs = m) by (unfold obs; rewrite map_length; reflexivity).
+      assert (Ls : List.length sels = m) by (rewrite Esel, map_length; exact Ln).
+      assert (Mpos : (0 < m)%nat) by (unfold m; destruct exps; [contradiction|cbn; lia]).
+      assert (K3 : keys s3 = keys s2 ++ ns) by (rewrite E3; apply keys_decls).
+      assert (Hv2 : In var (keys s2)) by (apply (grows_keys _ _ G12); exact Hv1).
+      assert (Hv3 : In var (keys s3)) by (rewrite K3; apply in_or_app; left; exact Hv2).
+      assert (Nvar : ~ In var ns) by (intros H; exact (Frn var H Hv2)).
+      set (zipped := combine (combine ops obs) sels).
+      (* what a tuple is *)
+      assert (Htup : forall t, In t zipped -> exists i, (i < m)%nat /\
+                t = ((context_to_exp (nth i cs l_new), bounds_of (s_an s0) (nth i exps (Num NaN))), Var (nth i ns ""%string))).
+      { intros t Ht. destruct (combine3_nth ops obs sels (context_to_exp l_new) (bounds_of (s_an s0) (Num NaN)) (Var ""%string) t) as [i [Hi Et]];
+          [lia|lia|exact Ht|]. exists i. split; [lia|]. rewrite Et. rewrite Eo, Esel. unfold obs. rewrite !map_nth. reflexivity. }
+      assert (Hin_tup : forall i, (i < m)%nat ->
+                In ((context_to_exp (nth i cs l_new), bounds_of (s_an s0) (nth i exps (Num NaN))), Var (nth i ns ""%string)) zipped).
+      { intros i Hi. pose proof (combine3_in ops obs sels (context_to_exp l_new) (bounds_of (s_an s0) (Num NaN)) (Var ""%string) i) as H.
+        rewrite Eo, Esel in H. unfold obs in H. rewrite !map_nth in H. unfold zipped. rewrite Eo, Esel. unfold obs. apply H; rewrite ?map_length; lia. }
+      assert (Hlo_i : forall i, (i < m)%nat -> exists l, lo (bounds_of (s_an s0) (nth i exps (Num NaN))) = Fin l) by (intros i Hi; apply Hlo; apply nth_In; exact Hi).
+      assert (Hc_i : forall i, (i < m)%nat -> ctx_fin (nth i cs l_new) /\ incl (ckeys (nth i cs l_new)) (keys s2)).
+      { intros i Hi. assert (Hc : In (nth i cs l_new) cs) by (apply nth_In; lia).
+        split; [exact (proj1 (Forall_forall _ _) F2 _ Hc)|exact (proj2 (proj1 (Forall_forall _ _) K2 _ Hc))]. }
+      set (rows := flat_map (fun t => [fmax t; gmax t]) zipped). set (sumc := mk_c (sum_exps sels) Eq (Num (Fin 1%Q))).
+      assert (Gr : Forall (cgood (keys s3)) rows).
+      { apply Forall_forall. intros c Hc. apply in_flat_map in Hc as [t [Ht Hc]]. destruct (Htup t Ht) as [i [Hi Et]].
+        destruct (Hc_i i Hi) as [Fi Ki]. destruct (Hlo_i i Hi) as [li Eli].
+        assert (Hk : In (nth i ns ""%string) (keys s3)) by (rewrite K3; apply in_or_app; right; apply nth_In; lia).
+        assert (Kc : incl (ckeys (nth i cs l_new)) (keys s3)) by (intros k Hk'; rewrite K3; apply in_or_app; left; apply Ki; exact Hk').
+        destruct Hc as [<-|[<-|[]]]; subst t; unfold fmax, gmax, cgood, mk_c, add_exp, mul_exp, sub_exp; cbn [fst snd c_assert c_lhs c_rhs].
+        - cbn [plainA xvars]. rewrite (plainA_ctx _ Fi), xvars_ctx. repeat split; try reflexivity; [intros k [<-|[]]; exact Hv3|exact Kc].
+        - rewrite Hhi, Eli. destruct (xq_sub_Fin U li) as [d [-> _]]. cbn [plainA xvars]. rewrite (plainA_ctx _ Fi), xvars_ctx.
+          repeat split; try reflexivity; [intros k [<-|[]]; exact Hv3|].
+          intros k Hk'. apply in_app_or in Hk' as [Hk'|Hk']; [apply Kc; exact Hk'|]. cbn in Hk'. destruct Hk' as [<-|[]]. exact Hk. }
+      assert (Gs : cgood (keys s3) sumc).
+      { unfold sumc. rewrite Esel. apply sum_vars_good; [intros E; rewrite E in Ln; cbn in Ln; lia|]. intros k Hk. rewrite K3. apply in_or_app. right. exact Hk. }
+      set (s4 := addcs s3 rows). set (s5 := addc s4 sumc).
+      assert (I5 : INV s5) by (apply INV_addc; [apply INV_addcs; assumption|unfold s4; rewrite keys_addcs; exact Gs]).
+      assert (G35 : grows s3 s5) by (eapply grows_trans; [apply grows_addcs|apply grows_addc]).
+      assert (G25 : grows s2 s5) by (eapply grows_trans; eassumption).
+      split; [exact I5|]. split; [eapply grows_trans; [exact G01|eapply grows_trans; [exact G12|exact G25]]|].
+      split; [apply from_var_ok; apply (grows_keys _ _ G35); exact Hv3|]. split; [exact (proj1 (from_var_one (fun _ => 0) var))|]. split.
+      - (* a point of the new state *)
+        intros sigma v S Hv. destruct (ev_max_inv _ _ _ Hv) as [v0 [vs [El ->]]]. set (Mx := fold_left Rmax vs v0).
+        assert (S2s : st_sat s2 sigma) by exact (st_sat_back _ _ _ G25 S).
+        pose proof (S2 sigma _ S2s El) as F. cbn [rel] in F. pose proof (Forall2_len _ _ _ F) as Lv.
+        destruct S as [Q [_ D]].
+        assert (Hval : forall i, (i < m)%nat -> ev sigma (context_to_exp (nth i cs l_new)) = Some (nth i (v0 :: vs) 0)).
+        { intros i Hi. rewrite (context_to_exp_sound sigma _ (proj1 (Hc_i i Hi))). f_equal. apply (Forall2_nth _ cs (v0 :: vs) l_new 0 i F). lia. }
+        assert (Hq : forall c, In c rows -> sat_constr sigma c).
+        { intros c Hc. apply Q. right. apply addcs_in. exact Hc. }
+        assert (Hge : forall i, (i < m)%nat -> sigma var >= nth i (v0 :: vs) 0).
+        { intros i Hi.
+          assert (Hin : In (fmax ((context_to_exp (nth i cs l_new), bounds_of (s_an s0) (nth i exps (Num NaN))), Var (nth i ns ""%string))) rows)
+            by (apply in_flat_map; eexists; split; [exact (Hin_tup i Hi)|left; reflexivity]).
+          destruct (Hq _ Hin) as [l [r0 [El' [Er' H]]]]. pose proof (Hval i Hi) as Hvi. remember (nth i (v0 :: vs) 0) as w eqn:Ew. clear Ew.
+          unfold fmax, mk_c in El', Er', H. cbn [fst snd c_lhs c_rhs c_cmp cmp_holds] in El', Er', H. rewrite ev_var in El'. rewrite Hvi in Er'.
+          injection El' as <-. injection Er' as <-. exact H. }
+        assert (Bn : Forall bin (map sigma ns)).
+        { apply Forall_forall. intros x Hx. apply in_map_iff in Hx as [k [<- Hk]]. apply (D k (mkDV TBoolean true)).
+          unfold s5, s4. cbn [addc s_dom]. rewrite (proj1 (dom_addcs rows s3)), E3, (proj2 (proj2 (dom_decls ns s2 TBoolean))).
+          apply in_or_app. right. apply in_map_iff. exists k. split; [reflexivity|exact Hk]. }
+        assert (Hsum : ArmLemmas.rsum (map sigma ns) = 1).
+        { destruct (Q sumc (or_introl eq_refl)) as [l [r0 [El' [Er' H]]]]. unfold sumc, mk_c in El', Er', H. cbn [c_lhs c_rhs c_cmp cmp_holds] in *.
+          rewrite Esel, ev_sum_exps_vars in El' by (intros E; rewrite E in Ln; cbn in Ln; lia). unfold ev in Er'. rewrite evg_Num_Fin, Q2R_1 in Er'.
+          injection El' as <-. injection Er' as <-. exact H. }
+        destruct (proj1 (in_map_iff _ _ _) (rsum_one_exists _ Bn Hsum)) as [kj [Ekj Hkj]].
+        destruct (In_nth _ _ ""%string Hkj) as [j [Hj Ej]]. rewrite Ln in Hj.
+        assert (Hle : sigma var <= nth j (v0 :: vs) 0).
+        { assert (Hin : In (gmax ((context_to_exp (nth j cs l_new), bounds_of (s_an s0) (nth j exps (Num NaN))), Var (nth j ns ""%string))) rows)
+            by (apply in_flat_map; eexists; split; [exact (Hin_tup j Hj)|right; left; reflexivity]).
+          destruct (Hq _ Hin) as [l [r0 [El' [Er' H]]]]. pose proof (Hval j Hj) as Hvj. remember (nth j (v0 :: vs) 0) as w eqn:Ew. clear Ew.
+          unfold gmax, mk_c in El', Er', H. cbn [fst snd c_lhs c_rhs c_cmp cmp_holds] in El', Er', H. rewrite ev_var in El'.
+          destruct (Hlo_i j Hj) as [lj Elj]. rewrite Hhi, Elj in Er'. destruct (xq_sub_Fin U lj) as [d [Ed _]]. rewrite Ed in Er'.
+          rewrite (ev_bigm_max _ _ _ _ _ Hvj) in Er'. injection El' as <-. injection Er' as <-. rewrite Ej, Ekj in H. lra. }
+        rewrite (proj2 (from_var_one sigma var)).
+        assert (E : sigma var = Mx).
+        { apply Rle_antisym.
+          - apply Rle_trans with (nth j (v0 :: vs) 0); [exact Hle|]. apply fold_max_ge. apply nth_In. rewrite <- Lv. lia.
+          - destruct (In_nth _ _ 0 (fold_max_in vs v0)) as [i [Hi Ei]]. fold Mx in Ei. rewrite <- Ei. apply Rge_le. apply Hge. rewrite Lv in *. lia. }
+        rewrite E. apply rel_eq.
+      - (* a point of the old state extends *)
+        intros rho v S Hv. destruct (ev_max_inv _ _ _ Hv) as [v0 [vs [El ->]]]. set (Mx := fold_left Rmax vs v0) in *.
+        pose proof (max_bounds rho Mx S Hv) as Bm.
+        destruct (st_sat_decl (set_cnt s0 cnt) var T rho Mx (INV_set_cnt _ _ I0) Mv Bm S) as [S1' A1]. fold s1 in S1'.
+        set (sg1 := updR rho var Mx) in *.
+        assert (El1 : evlist sg1 false exps = Some (v0 :: vs)).
+        { rewrite <- El. apply evlist_agree_ok; [exact Oe|]. intros k Hk. apply A1. apply Ix. exact Hk. }
+        destruct (C2 sg1 _ S1' El1) as [sg2 [A2 [S2' V2]]]. pose proof (Forall2_len _ _ _ V2) as Lv.
+        destruct (In_nth _ _ 0 (fold_max_in vs v0)) as [j [Hj Ej]]. fold Mx in Ej. rewrite <- Lv, Lc in Hj. fold m in Hj.
+        set (kj := nth j ns ""%string). set (vals := fun k : string => if String.eqb k kj then 1 else 0).
+        assert (Sat3 : st_sat s3 (updL sg2 ns vals)).
+        { rewrite E3. apply decls_sat; [exact I2|exact NDn|exact Frn| |exact S2']. intros k _. unfold vals. destruct (String.eqb k kj); [right|left]; reflexivity. }
+        set (sg3 := updL sg2 ns vals) in *.
+        assert (A3 : forall k, In k (keys s2) -> sg3 k = sg2 k) by (intros k Hk; apply updL_other; intros H; exact (Frn k H Hk)).
+        assert (Ev : sg3 var = Mx) by (rewrite A3 by exact Hv2; rewrite A2 by exact Hv1; apply updR_same).
+        assert (Hval : forall i, (i < m)%nat -> ev sg3 (context_to_exp (nth i cs l_new)) = Some (nth i (v0 :: vs) 0)).
+        { intros i Hi. destruct (Hc_i i Hi) as [Fi Ki]. rewrite (context_to_exp_sound sg3 _ Fi). f_equal.
+          rewrite (ctx_val_agree sg3 sg2) by (intros k Hk; apply A3; apply Ki; exact Hk).
+          apply (Forall2_nth _ cs (v0 :: vs) l_new 0 i V2). lia. }
+        assert (Hvb : forall i, (i < m)%nat -> in_b (bounds_of (s_an s0) (nth i exps (Num NaN))) (nth i (v0 :: vs) 0)).
+        { intros i Hi. destruct S as [_ [_ D]]. assert (He : In (nth i exps (Num NaN)) exps) by (apply nth_In; exact Hi).
+          apply (bounds_of_on (s_an s0) rho); [exact (proj1 (forallb_forall _ _) Oe _ He)| |exact (evlist_nth rho exps _ i El Hi)].
+          intros k Hk. apply (inv_box s0 I0 rho D). apply Ix. apply in_flat_map. eexists. split; [exact He|exact Hk]. }
+        exists sg3. split; [intros k Hk; rewrite A3 by (apply (grows_keys _ _ G12); apply (grows_keys _ _ G01); exact Hk);
+                            rewrite A2 by (apply (grows_keys _ _ G01); exact Hk); apply A1; exact Hk|].
+        split; [|rewrite (proj2 (from_var_one sg3 var)); exact Ev].
+        apply st_sat_addc; [apply st_sat_addcs; [exact Sat3|]|].
+        + intros c Hc. apply in_flat_map in Hc as [t [Ht Hc]]. destruct (Htup t Ht) as [i [Hi Et]]. subst t.
+          assert (Hvi : nth i (v0 :: vs) 0 <= Mx) by (apply fold_max_ge; apply nth_In; rewrite <- Lv, Lc; exact Hi).
+          destruct Hc as [<-|[<-|[]]].
+          * eexists _, _. unfold fmax, mk_c. cbn [fst snd c_lhs c_rhs c_cmp cmp_holds]. split; [apply ev_var|]. split; [exact (Hval i Hi)|]. rewrite Ev. lra.
+          * destruct (Hlo_i i Hi) as [li Eli]. destruct (xq_sub_Fin U li) as [d [Ed Vd]].
+            eexists _, _. unfold gmax, mk_c. cbn [fst snd c_lhs c_rhs c_cmp cmp_holds]. rewrite Hhi, Eli, Ed.
+            split; [apply ev_var|]. split; [apply ev_bigm_max; exact (Hval i Hi)|]. rewrite Ev, Vd.
+            assert (Ek : sg3 (nth i ns ""%string) = vals (nth i ns ""%string)) by (apply updL_in; apply nth_In; lia). rewrite Ek. unfold vals.
+            destruct (String.eqb (nth i ns ""%string) kj) eqn:Eq.
+            -- apply String.eqb_eq in Eq. unfold kj in Eq. apply (proj1 (NoDup_nth ns ""%string) NDn) in Eq; [|lia|lia]. subst i. rewrite Ej. lra.
+            -- destruct (Hvb i Hi) as [B1 _]. rewrite Eli in B1. cbn [xq_le_R] in B1. destruct Bm as [_ B2]. fold eb in B2. rewrite Hhi in B2. cbn [R_le_xq] in B2. lra.
+        + eexists _, _. unfold sumc, mk_c. cbn [c_lhs c_rhs c_cmp cmp_holds]. rewrite Esel.
+          split; [apply ev_sum_exps_vars; intros E; rewrite E in Ln; cbn in Ln; lia|]. split; [unfold ev; rewrite evg_Num_Fin, Q2R_1; reflexivity|].
+          rewrite (map_ext_in sg3 vals) by (intros k Hk; apply updL_in; exact Hk). apply rsum_indicator; [exact NDn|apply nth_In; lia].
+    Qed.
+  End MaxArm.
+
+  Section MinArm.
+    Variables (exps : list exp) (s0 : lst) (cnt : list (string * N)) (var : string).
+    Let eb := bounds_of (s_an s0) (Min exps).
+    Let T := TReal (lo eb) (hi eb).
+    Let s1 := decl (set_cnt s0 cnt) var T.
+    Hypothesis Oe : forallb okexp exps = true.
+    Hypothesis Ne : exps <> [].
+    Hypothesis Np : forallb (noprune (s_an s0)) exps = true.
+    Hypothesis I0 : INV s0.
+    Hypothesis Ix : incl (flat_map xvars exps) (keys s0).
+    Hypothesis Tt : Forall tot exps.
+    Hypothesis Mv : al_mem (s_dom s0) var = false.
+
+    Lemma min_bounds rho v : st_sat s0 rho -> ev rho (Min exps) = Some v -> in_b eb v.
+    Proof.
+      intros [_ [_ D]] Hv. apply (bounds_of_on (s_an s0) rho (Min exps) v); [|intros k Hk; rewrite xvars_Min in Hk; apply (inv_box s0 I0 rho D); apply Ix; exact Hk|exact Hv].
+      rewrite okexp_Min. destruct exps; [contradiction|exact Oe].
+    Qed.
+    Lemma min_setup : INV s1 /\ grows s0 s1 /\ In var (keys s1) /\ forallb (noprune (s_an s1)) exps = true /\ incl (flat_map xvars exps) (keys s1).
+    Proof.
+      assert (I1 : INV s1) by (apply INV_decl; [apply INV_set_cnt; exact I0|exact Mv]).
+      assert (G : grows s0 s1) by (eapply grows_trans; [apply grows_set_cnt|apply grows_decl; exact Mv]).
+      split; [exact I1|]. split; [exact G|]. split; [unfold s1; rewrite keys_decl; apply in_or_app; right; left; reflexivity|]. split.
+      - rewrite <- Np. apply forallb_ext_in. apply Forall_forall. intros e He. apply noprune_grows; [exact G|].
+        intros k Hk. apply Ix. apply in_flat_map. exists e. split; assumption.
+      - intros k Hk. apply (grows_keys _ _ G). apply Ix. exact Hk.
+    Qed.
+
+    Lemma min_upper ops s2 :
+      mapMM (fun e => bind (lin n e PreferHigher) (fun v => ret (context_to_exp v))) exps s1 = inr (ops, s2) ->
+      lin_spec (Min exps) PreferHigher s0 (l_from_var var (Fin 1%Q)) (addcs s2 (map (fun o => mk_c (Var var) Le o) ops)).
+    Proof.
+      intros HM. destruct min_setup as [I1 [G01 [Hv1 [Np1 Ix1]]]].
+      destruct (mapMM_ok PreferHigher exps s1 ops s2 Oe Np1 I1 Ix1 Tt HM) as [cs [Eo [_ [I2 [G12 [K2 [F2 [S2 C2]]]]]]]].
+      assert (Hv2 : In var (keys s2)) by (apply (grows_keys _ _ G12); exact Hv1).
+      set (rows := map (fun o => mk_c (Var var) Le o) ops). set (s3 := addcs s2 rows).
+      assert (Gr : Forall (cgood (keys s2)) rows) by (unfold rows; rewrite Eo; apply ops_cgood; assumption).
+      assert (Hrow : forall c, In c cs -> In (mk_c (Var var) Le (context_to_exp c)) rows).
+      { intros c Hc. unfold rows. rewrite Eo, map_map. apply in_map_iff. exists c. split; [reflexivity|exact Hc]. }
+      split; [apply INV_addcs; assumption|]. split; [eapply grows_trans; [exact G01|eapply grows_trans; [exact G12|apply grows_addcs]]|].
+      split; [apply from_var_ok; unfold s3; rewrite keys_addcs; exact Hv2|]. split; [exact (proj1 (from_var_one (fun _ => 0) var))|]. split.
+      - intros sigma v S Hv. destruct (ev_min_inv _ _ _ Hv) as [v0 [vs [El ->]]].
+        assert (S2s : st_sat s2 sigma) by exact (st_sat_back _ _ _ (grows_addcs rows s2) S).
+        pose proof (S2 sigma _ S2s El) as F. rewrite (proj2 (from_var_one sigma var)). cbn [rel].
+        destruct (Forall2_in_right _ _ _ _ F (fold_min_in vs v0)) as [c [Hc Hrel]]. cbn [rel] in Hrel.
+        destruct S as [Q _]. destruct (Q _ (addcs_in s2 rows _ (Hrow c Hc))) as [l [r [El' [Er' H]]]].
+        unfold mk_c in El', Er', H. cbn [c_lhs c_rhs c_cmp cmp_holds] in *. rewrite ev_var in El'.
+        rewrite (context_to_exp_sound sigma c (proj1 (Forall_forall _ _) F2 c Hc)) in Er'. injection El' as <-. injection Er' as <-. lra.
+      - intros rho v S Hv. destruct (ev_min_inv _ _ _ Hv) as [v0 [vs [El ->]]]. set (Mn := fold_left Rmin vs v0) in *.
+        pose proof (min_bounds rho Mn S Hv) as Bm.
+        destruct (st_sat_decl (set_cnt s0 cnt) var T rho Mn (INV_set_cnt _ _ I0) Mv Bm S) as [S1' A1]. fold s1 in S1'.
+        set (sg1 := updR rho var Mn) in *.
+        assert (El1 : evlist sg1 false exps = Some (v0 :: vs)).
+        { rewrite <- El. apply evlist_agree_ok; [exact Oe|]. intros k Hk. apply A1. apply Ix. exact Hk. }
+        destruct (C2 sg1 _ S1' El1) as [sg2 [A2 [S2' V2]]].
+        assert (Ev : sg2 var = Mn) by (rewrite A2 by exact Hv1; apply updR_same).
+        exists sg2. split; [intros k Hk; rewrite A2 by (apply (grows_keys _ _ G01); exact Hk); apply A1; exact Hk|].
+        split; [|rewrite (proj2 (from_var_one sg2 var)); exact Ev].
+        apply st_sat_addcs; [exact S2'|]. intros c Hc. unfold rows in Hc. rewrite Eo, map_map in Hc. apply in_map_iff in Hc as [cx [<- Hcx]].
+        destruct (Forall2_in_left _ _ _ _ V2 Hcx) as [w [Hw Ew]].
+        exists (sg2 var), w. unfold mk_c. cbn [c_lhs c_rhs c_cmp cmp_holds]. split; [apply ev_var|].
+        split; [rewrite (context_to_exp_sound sg2 cx (proj1 (Forall_forall _ _) F2 cx Hcx)), Ew; reflexivity|].
+        rewrite Ev. apply fold_min_le. exact Hw.
+    Qed.
+    (* exact: selectors *)
+    Variables (sel : nat -> string) (U : Q).
+    Hypothesis Hhi : lo eb = Fin U.
+    Hypothesis Hlo : forall e, In e exps -> exists l, hi (bounds_of (s_an s0) e) = Fin l.
+    Let obs := map (bounds_of (s_an s0)) exps.
+    Let fmin (t : (exp * bounds) * exp) : constr := mk_c (Var var) Le (fst (fst t)).
+    Let gmin (t : (exp * bounds) * exp) : constr :=
+      mk_c (Var var) Ge (sub_exp (fst (fst t)) (mul_exp (Num (xq_sub (hi (snd (fst t))) (lo eb))) (sub_exp (Num (Fin 1%Q)) (snd t)))).
+
+    Lemma min_exact r ops s2 u3 s3 :
+      mapMM (fun e => bind (lin n e Exact) (fun v => ret (context_to_exp v))) exps s1 = inr (ops, s2) ->
+      iterM (fun i => declare_variable (sel i) TBoolean) (seq O (List.length ops)) s2 = inr (u3, s3) ->
+      let sels := map (fun i => Var (sel i)) (seq O (List.length ops)) in
+      lin_spec (Min exps) r s0 (l_from_var var (Fin 1%Q))
+        (addc (addcs s3 (flat_map (fun t => [fmin t; gmin t]) (combine (combine ops obs) sels))) (mk_c (sum_exps sels) Eq (Num (Fin 1%Q)))).
+    Proof.
+      intros HM HD sels. destruct min_setup as [I1 [G01 [Hv1 [Np1 Ix1]]]].
+      destruct (mapMM_ok Exact exps s1 ops s2 Oe Np1 I1 Ix1 Tt HM) as [cs [Eo [Lc [I2 [G12 [K2 [F2 [S2 C2]]]]]]]].
+      set (m := List.length exps) in *.
+      assert (Lo : List.length ops = m) by (rewrite Eo, map_length; exact Lc).
+      set (ns := map sel (seq O (List.length ops))).
+      assert (Esel : sels = map Var ns) by (unfold sels, ns; rewrite map_map; reflexivity).
+      destruct (iterM_decl sel TBoolean _ _ _ _ HD) as [E3 [NDn Frn]]. fold ns in E3, NDn, Frn.
+      destruct (decls_ok ns s2 TBoolean I2 NDn Frn) as [I3 G23]. rewrite <- E3 in I3, G23.
+      assert (Ln : List.length ns = m) by (unfold ns; rewrite map_length, seq_length; exact Lo).
+      assert (Lb : List.length obs = m) by (unfold obs; rewrite map_length; reflexivity).
+      assert (Ls : List.length sels = m) by (rewrite Esel, map_length; exact Ln).
+      assert (Mpos : (0 < m)%nat) by (unfold m; destruct exps; [contradiction|cbn; lia]).
+      assert (K3 : keys s3 = keys s2 ++ ns) by (rewrite E3; apply keys_decls).
+      assert (Hv2 : In var (keys s2)) by (apply (grows_keys _ _ G12); exact Hv1).
+      assert (Hv3 : In var (keys s3)) by (rewrite K3; apply in_or_app; left; exact Hv2).
+      assert (Nvar : ~ In var ns) by (intros H; exact (Frn var H Hv2)).
+      set (zipped := combine (combine ops obs) sels).
+      (* what a tuple is *)
+      assert (Htup : forall t, In t zipped -> exists i, (i < m)%nat /\
+                t = ((context_to_exp (nth i cs l_new), bounds_of (s_an s0) (nth i exps (Num NaN))), Var (nth i ns ""%string))).
+      { intros t Ht. destruct (combine3_nth ops obs sels (context_to_exp l_new) (bounds_of (s_an s0) (Num NaN)) (Var ""%string) t) as [i [Hi Et]];
+          [lia|lia|exact Ht|]. exists i. split; [lia|]. rewrite Et. rewrite Eo, Esel. unfold obs. rewrite !map_nth. reflexivity. }
+      assert (Hin_tup : forall i, (i < m)%nat ->
+                In ((context_to_exp (nth i cs l_new), bounds_of (s_an s0) (nth i exps (Num NaN))), Var (nth i ns ""%string)) zipped).
+      { intros i Hi. pose proof (combine3_in ops obs sels (context_to_exp l_new) (bounds_of (s_an s0) (Num NaN)) (Var ""%string) i) as H.
+        rewrite Eo, Esel in H. unfold obs in H. rewrite !map_nth in H. unfold zipped. rewrite Eo, Esel. unfold obs. apply H; rewrite ?map_length; lia. }
+      assert (Hlo_i : forall i, (i < m)%nat -> exists l, hi (bounds_of (s_an s0) (nth i exps (Num NaN))) = Fin l) by (intros i Hi; apply Hlo; apply nth_In; exact Hi).
+      assert (Hc_i : forall i, (i < m)%nat -> ctx_fin (nth i cs l_new) /\ incl (ckeys (nth i cs l_new)) (keys s2)).
+      { intros i Hi. assert (Hc : In (nth i cs l_new) cs) by (apply nth_In; lia).
+        split; [exact (proj1 (Forall_forall _ _) F2 _ Hc)|exact (proj2 (proj1 (Forall_forall _ _) K2 _ Hc))]. }
+      set (rows := flat_map (fun t => [fmin t; gmin t]) zipped). set (sumc := mk_c (sum_exps sels) Eq (Num (Fin 1%Q))).
+      assert (Gr : Forall (cgood (keys s3)) rows).
+      { apply Forall_forall. intros c Hc. apply in_flat_map in Hc as [t [Ht Hc]]. destruct (Htup t Ht) as [i [Hi Et]].
+        destruct (Hc_i i Hi) as [Fi Ki]. destruct (Hlo_i i Hi) as [li Eli].
+        assert (Hk : In (nth i ns ""%string) (keys s3)) by (rewrite K3; apply in_or_app; right; apply nth_In; lia).
+        assert (Kc : incl (ckeys (nth i cs l_new)) (keys s3)) by (intros k Hk'; rewrite K3; apply in_or_app; left; apply Ki; exact Hk').
+        destruct Hc as [<-|[<-|[]]]; subst t; unfold fmin, gmin, cgood, mk_c, add_exp, mul_exp, sub_exp; cbn [fst snd c_assert c_lhs c_rhs].
+        - cbn [plainA xvars]. rewrite (plainA_ctx _ Fi), xvars_ctx. repeat split; try reflexivity; [intros k [<-|[]]; exact Hv3|exact Kc].
+        - rewrite Eli, Hhi. destruct (xq_sub_Fin li U) as [d [-> _]]. cbn [plainA xvars]. rewrite (plainA_ctx _ Fi), xvars_ctx.
+          repeat split; try reflexivity; [intros k [<-|[]]; exact Hv3|].
+          intros k Hk'. apply in_app_or in Hk' as [Hk'|Hk']; [apply Kc; exact Hk'|]. cbn in Hk'. destruct Hk' as [<-|[]]. exact Hk. }
+      assert (Gs : cgood (keys s3) sumc).
+      { unfold sumc. rewrite Esel. apply sum_vars_good; [intros E; rewrite E in Ln; cbn in Ln; lia|]. intros k Hk. rewrite K3. apply in_or_app. right. exact Hk. }
+      set (s4 := addcs s3 rows). set (s5 := addc s4 sumc).
+      assert (I5 : INV s5) by (apply INV_addc; [apply INV_addcs; assumption|unfold s4; rewrite keys_addcs; exact Gs]).
+      assert (G35 : grows s3 s5) by (eapply grows_trans; [apply grows_addcs|apply grows_addc]).
+      assert (G25 : grows s2 s5) by (eapply grows_trans; eassumption).
+      split; [exact I5|]. split; [eapply grows_trans; [exact G01|eapply grows_trans; [exact G12|exact G25]]|].
+      split; [apply from_var_ok; apply (grows_keys _ _ G35); exact Hv3|]. split; [exact (proj1 (from_var_one (fun _ => 0) var))|]. split.
+      - (* a point of the new state *)
+        intros sigma v S Hv. destruct (ev_min_inv _ _ _ Hv) as [v0 [vs [El ->]]]. set (Mn := fold_left Rmin vs v0).
+        assert (S2s : st_sat s2 sigma) by exact (st_sat_back _ _ _ G25 S).
+        pose proof (S2 sigma _ S2s El) as F. cbn [rel] in F. pose proof (Forall2_len _ _ _ F) as Lv.
+        destruct S as [Q [_ D]].
+        assert (Hval : forall i, (i < m)%nat -> ev sigma (context_to_exp (nth i cs l_new)) = Some (nth i (v0 :: vs) 0)).
+        { intros i Hi. rewrite (context_to_exp_sound sigma _ (proj1 (Hc_i i Hi))). f_equal. apply (Forall2_nth _ cs (v0 :: vs) l_new 0 i F). lia. }
+        assert (Hq : forall c, In c rows -> sat_constr sigma c).
+        { intros c Hc. apply Q. right. apply addcs_in. exact Hc. }
+        assert (Hge : forall i, (i < m)%nat -> sigma var <= nth i (v0 :: vs) 0).
+        { intros i Hi.
+          assert (Hin : In (fmin ((context_to_exp (nth i cs l_new), bounds_of (s_an s0) (nth i exps (Num NaN))), Var (nth i ns ""%string))) rows)
+            by (apply in_flat_map; eexists; split; [exact (Hin_tup i Hi)|left; reflexivity]).
+          destruct (Hq _ Hin) as [l [r0 [El' [Er' H]]]]. pose proof (Hval i Hi) as Hvi. remember (nth i (v0 :: vs) 0) as w eqn:Ew. clear Ew.
+          unfold fmin, mk_c in El', Er', H. cbn [fst snd c_lhs c_rhs c_cmp cmp_holds] in El', Er', H. rewrite ev_var in El'. rewrite Hvi in Er'.
+          injection El' as <-. injection Er' as <-. exact H. }
+        assert (Bn : Forall bin (map sigma ns)).
+        { apply Forall_forall. intros x Hx. apply in_map_iff in Hx as [k [<- Hk]]. apply (D k (mkDV TBoolean true)).
+          unfold s5, s4. cbn [addc s_dom]. rewrite (proj1 (dom_addcs rows s3)), E3, (proj2 (proj2 (dom_decls ns s2 TBoolean))).
+          apply in_or_app. right. apply in_map_iff. exists k. split; [reflexivity|exact Hk]. }
+        assert (Hsum : ArmLemmas.rsum (map sigma ns) = 1).
+        { destruct (Q sumc (or_introl eq_refl)) as [l [r0 [El' [Er' H]]]]. unfold sumc, mk_c in El', Er', H. cbn [c_lhs c_rhs c_cmp cmp_holds] in *.
+          rewrite Esel, ev_sum_exps_vars in El' by (intros E; rewrite E in Ln; cbn in Ln; lia). unfold ev in Er'. rewrite evg_Num_Fin, Q2R_1 in Er'.
+          injection El' as <-. injection Er' as <-. exact H. }
+        destruct (proj1 (in_map_iff _ _ _) (rsum_one_exists _ Bn Hsum)) as [kj [Ekj Hkj]].
+        destruct (In_nth _ _ ""%string Hkj) as [j [Hj Ej]]. rewrite Ln in Hj.
+        assert (Hle : sigma var >= nth j (v0 :: vs) 0).
+        { assert (Hin : In (gmin ((context_to_exp (nth j cs l_new), bounds_of (s_an s0) (nth j exps (Num NaN))), Var (nth j ns ""%string))) rows)
+            by (apply in_flat_map; eexists; split; [exact (Hin_tup j Hj)|right; left; reflexivity]).
+          destruct (Hq _ Hin) as [l [r0 [El' [Er' H]]]]. pose proof (Hval j Hj) as Hvj. remember (nth j (v0 :: vs) 0) as w eqn:Ew. clear Ew.
+          unfold gmin, mk_c in El', Er', H. cbn [fst snd c_lhs c_rhs c_cmp cmp_holds] in El', Er', H. rewrite ev_var in El'.
+          destruct (Hlo_i j Hj) as [lj Elj]. rewrite Elj, Hhi in Er'. destruct (xq_sub_Fin lj U) as [d [Ed _]]. rewrite Ed in Er'.
+          rewrite (ev_bigm_min _ _ _ _ _ Hvj) in Er'. injection El' as <-. injection Er' as <-. rewrite Ej, Ekj in H. lra. }
+        rewrite (proj2 (from_var_one sigma var)).
+        assert (E : sigma var = Mn).
+        { apply Rle_antisym.
+          - destruct (In_nth _ _ 0 (fold_min_in vs v0)) as [i [Hi Ei]]. fold Mn in Ei. rewrite <- Ei. apply Hge. rewrite Lv in *. lia.
+          - apply Rle_trans with (nth j (v0 :: vs) 0); [|apply Rge_le; exact Hle]. apply fold_min_le. apply nth_In. rewrite <- Lv. lia. }
+        rewrite E. apply rel_eq.
+      - (* a point of the old state extends *)
+        intros rho v S Hv. destruct (ev_min_inv _ _ _ Hv) as [v0 [vs [El ->]]]. set (Mn := fold_left Rmin vs v0) in *.
+        pose proof (min_bounds rho Mn S Hv) as Bm.
+        destruct (st_sat_decl (set_cnt s0 cnt) var T rho Mn (INV_set_cnt _ _ I0) Mv Bm S) as [S1' A1]. fold s1 in S1'.
+        set (sg1 := updR rho var Mn) in *.
+        assert (El1 : evlist sg1 false exps = Some (v0 :: vs)).
+        { rewrite <- El. apply evlist_agree_ok; [exact Oe|]. intros k Hk. apply A1. apply Ix. exact Hk. }
+        destruct (C2 sg1 _ S1' El1) as [sg2 [A2 [S2' V2]]]. pose proof (Forall2_len _ _ _ V2) as Lv.
+        destruct (In_nth _ _ 0 (fold_min_in vs v0)) as [j [Hj Ej]]. fold Mn in Ej. rewrite <- Lv, Lc in Hj. fold m in Hj.
+        set (kj := nth j ns ""%string). set (vals := fun k : string => if String.eqb k kj then 1 else 0).
+        assert (Sat3 : st_sat s3 (updL sg2 ns vals)).
+        { rewrite E3. apply decls_sat; [exact I2|exact NDn|exact Frn| |exact S2']. intros k _. unfold vals. destruct (String.eqb k kj); [right|left]; reflexivity. }
+        set (sg3 := updL sg2 ns vals) in *.
+        assert (A3 : forall k, In k (keys s2) -> sg3 k = sg2 k) by (intros k Hk; apply updL_other; intros H; exact (Frn k H Hk)).
+        assert (Ev : sg3 var = Mn) by (rewrite A3 by exact Hv2; rewrite A2 by exact Hv1; apply updR_same).
+        assert (Hval : forall i, (i < m)%nat -> ev sg3 (context_to_exp (nth i cs l_new)) = Some (nth i (v0 :: vs) 0)).
+        { intros i Hi. destruct (Hc_i i Hi) as [Fi Ki]. rewrite (context_to_exp_sound sg3 _ Fi). f_equal.
+          rewrite (ctx_val_agree sg3 sg2) by (intros k Hk; apply A3; apply Ki; exact Hk).
+          apply (Forall2_nth _ cs (v0 :: vs) l_new 0 i V2). lia. }
+        assert (Hvb : forall i, (i < m)%nat -> in_b (bounds_of (s_an s0) (nth i exps (Num NaN))) (nth i (v0 :: vs) 0)).
+        { intros i Hi. destruct S as [_ [_ D]]. assert (He : In (nth i exps (Num NaN)) exps) by (apply nth_In; exact Hi).
+          apply (bounds_of_on (s_an s0) rho); [exact (proj1 (forallb_forall _ _) Oe _ He)| |exact (evlist_nth rho exps _ i El Hi)].
+          intros k Hk. apply (inv_box s0 I0 rho D). apply Ix. apply in_flat_map. eexists. split; [exact He|exact Hk]. }
+        exists sg3. split; [intros k Hk; rewrite A3 by (apply (grows_keys _ _ G12); apply (grows_keys _ _ G01); exact Hk);
+                            rewrite A2 by (apply (grows_keys _ _ G01); exact Hk); apply A1; exact Hk|].
+        split; [|rewrite (proj2 (from_var_one sg3 var)); exact Ev].
+        apply st_sat_addc; [apply st_sat_addcs; [exact Sat3|]|].
+        + intros c Hc. apply in_flat_map in Hc as [t [Ht Hc]]. destruct (Htup t Ht) as [i [Hi Et]]. subst t.
+          assert (Hvi : Mn <= nth i (v0 :: vs) 0) by (apply fold_min_le; apply nth_In; rewrite <- Lv, Lc; exact Hi).
+          destruct Hc as [<-|[<-|[]]].
+          * eexists _, _. unfold fmin, mk_c. cbn [fst snd c_lhs c_rhs c_cmp cmp_holds]. split; [apply ev_var|]. split; [exact (Hval i Hi)|]. rewrite Ev. lra.
+          * destruct (Hlo_i i Hi) as [li Eli]. destruct (xq_sub_Fin li U) as [d [Ed Vd]].
+            eexists _, _. unfold gmin, mk_c. cbn [fst snd c_lhs c_rhs c_cmp cmp_holds]. rewrite Eli, Hhi, Ed.
+            split; [apply ev_var|]. split; [apply ev_bigm_min; exact (Hval i Hi)|]. rewrite Ev, Vd.
+            assert (Ek : sg3 (nth i ns ""%string) = vals (nth i ns ""%string)) by (apply updL_in; apply nth_In; lia). rewrite Ek. unfold vals.
+            destruct (String.eqb (nth i ns ""%string) kj) eqn:Eq.
+            -- apply String.eqb_eq in Eq. unfold kj in Eq. apply (proj1 (NoDup_nth ns ""%string) NDn) in Eq; [|lia|lia]. subst i. rewrite Ej. lra.
+            -- destruct (Hvb i Hi) as [_ B1]. rewrite Eli in B1. cbn [R_le_xq] in B1. destruct Bm as [B2 _]. fold eb in B2. rewrite Hhi in B2. cbn [xq_le_R] in B2. lra.
+        + eexists _, _. unfold sumc, mk_c. cbn [c_lhs c_rhs c_cmp cmp_holds]. rewrite Esel.
+          split; [apply ev_sum_exps_vars; intros E; rewrite E in Ln; cbn in Ln; lia|]. split; [unfold ev; rewrite evg_Num_Fin, Q2R_1; reflexivity|].
+          rewrite (map_ext_in sg3 vals) by (intros k Hk; apply updL_in; exact Hk). apply rsum_indicator; [exact NDn|apply nth_In; lia].
+    Qed.
+  End MinArm.
+
+  Definition ext_exp (k : ekind) (l : list exp) : exp := match k with KMin => Min l | KMax => Max l end.
+  Lemma map_nth_seq_len {A} (l : list A) d m : m = List.length l -> map (fun i => nth i l d) (seq O m) = l.
+  Proof. intros ->. apply map_nth_seq. Qed.
+  Lemma forallb_finite_lo an exps : forallb (fun b : bounds => xq_is_finite (lo b)) (map (bounds_of an) exps) = true ->
+    forall e, In e exps -> exists l, lo (bounds_of an e) = Fin l.
+  Proof.
+    intros H e He. pose proof (proj1 (forallb_forall _ _) H _ (in_map (bounds_of an) _ _ He)) as F. cbn beta in F.
+    destruct (lo (bounds_of an e)); try discriminate. eauto.
+  Qed.
+  Lemma forallb_finite_hi an exps : forallb (fun b : bounds => xq_is_finite (hi b)) (map (bounds_of an) exps) = true ->
+    forall e, In e exps -> exists l, hi (bounds_of an e) = Fin l.
+  Proof.
+    intros H e He. pose proof (proj1 (forallb_forall _ _) H _ (in_map (bounds_of an) _ _ He)) as F. cbn beta in F.
+    destruct (hi (bounds_of an e)); try discriminate. eauto.
+  Qed.
+
+  Lemma extreme_ok k l r s c s' : okexp (ext_exp k l) = true -> noprune (s_an s) (ext_exp k l) = true -> INV s ->
+    incl (xvars (ext_exp k l)) (keys s) -> tot (ext_exp k l) ->
+    linearize_extreme (lin n) k l r s = inr (c, s') -> lin_spec (ext_exp k l) r s c s'.
+  Proof.
+    intros Ok Np I Ix Tt H. destruct k; cbn [ext_exp] in *.
+    - (* min *)
+      rewrite okexp_Min in Ok. rewrite noprune_Min in Np. apply andb_true_iff in Np as [Npl Nret]. apply list_nat_eqb_eq in Nret.
+      rewrite xvars_Min in Ix. pose proof (tot_list_min _ Tt) as Tl.
+      destruct l as [|x l']; [discriminate|].
+      unfold linearize_extreme in H. unfold bind at 1, get_st at 1 in H. cbv zeta in H. rewrite Nret in H.
+      destruct l' as [|y l''].
+      + (* a single operand *)
+        cbn [List.length seq nth] in H. cbn [forallb] in Ok, Npl. rewrite andb_true_r in Ok, Npl. cbn [flat_map] in Ix. rewrite app_nil_r in Ix.
+        inversion Tl as [|? ? Tx _]; subst.
+        pose proof (IHn _ _ _ _ _ Ok Npl I Ix Tx H) as Sp.
+        apply (spec_un (Min [x]) x r r (fun z => z) (fun z => z) s c s' Ok Ix); [| | | |exact Sp].
+        * intros sigma v _ Hv. destruct (ev_min_inv _ _ _ Hv) as [v0 [vs [El ->]]]. cbn [evlist] in El.
+          destruct (evg sigma false x) as [vx|] eqn:Ex; [|discriminate]. inversion El; subst. exists v0. split; [exact Ex|reflexivity].
+        * intros A z Hz. exact Hz.
+        * intros z Fz. split; [exact Fz|reflexivity].
+        * intros z vz Hr. exact Hr.
+      + cbn [List.length seq] in H. change (0%nat :: 1%nat :: seq 2 (List.length l'')) with (seq 0 (List.length (x :: y :: l''))) in H.
+        set (exps := x :: y :: l'') in *.
+        rewrite (map_nth_seq exps (Num NaN)) in H.
+        rewrite (map_nth_seq_len (map (bounds_of (s_an s)) exps) b_unbounded (List.length exps) (eq_sym (map_length _ _))) in H.
+        assert (Ne : exps <> []) by discriminate.
+        destruct r.
+        * (* PreferLower: exact *)
+          cbn [negb andb] in H.
+          match type of H with context [if negb ?b then _ else _] => destruct b eqn:HF; cbn [negb] in H; [|discriminate] end.
+          apply andb_true_iff in HF as [Fhi Flo]. destruct (fin_inv _ Fhi) as [U Hhi].
+          unfold bind at 1, next_id at 1 in H. cbv beta iota in H.
+          match type of H with context [declare_variable ?v ?t] => set (var := v) in *; set (T := t) in * end.
+          unfold bind at 1, declare_variable at 1 in H. cbn [s_dom] in H. destruct (al_mem (s_dom s) var) eqn:Mv; [discriminate|].
+          unfold bind at 1 in H.
+          match type of H with context [mapMM ?f exps ?st] => destruct (mapMM f exps st) as [er|[ops s2]] eqn:HM; [discriminate|] end.
+          unfold bind at 1 in H.
+          match type of H with context [iterM ?f (seq 0 (List.length ops)) s2] => destruct (iterM f (seq 0 (List.length ops)) s2) as [er|[u3 s3]] eqn:HD; [discriminate|] end.
+          unfold bind at 1 in H.
+          rewrite (iterM_fold _ (fun t st => addc (addc st (mk_c (Var var) Le (fst (fst t))))
+                                   (mk_c (Var var) Ge (sub_exp (fst (fst t)) (mul_exp (Num (xq_sub (hi (snd (fst t))) (lo (bounds_of (s_an s) (Min exps))))) (sub_exp (Num (Fin 1%Q)) (snd t))))))) in H
+            by (intros [[o b0] sl] st; reflexivity).
+          unfold bind at 1, add_constraint at 1, ret in H. injection H as <- <-. rewrite fold_addc2.
+          exact (min_exact exps s _ var Ok Ne Npl I Ix Tl Mv _ U Hhi (forallb_finite_hi _ _ Flo) PreferLower ops s2 u3 s3 HM HD).
+        * (* PreferHigher: one-sided *)
+          cbn [negb andb] in H. unfold bind at 1, next_id at 1 in H. cbv beta iota in H.
+          match type of H with context [declare_variable ?v ?t] => set (var := v) in *; set (T := t) in * end.
+          unfold bind at 1, declare_variable at 1 in H. cbn [s_dom] in H. destruct (al_mem (s_dom s) var) eqn:Mv; [discriminate|].
+          unfold bind at 1 in H.
+          match type of H with context [mapMM ?f exps ?st] => destruct (mapMM f exps st) as [er|[ops s2]] eqn:HM; [discriminate|] end.
+          unfold bind at 1 in H. rewrite (iterM_fold _ (fun o st => addc st (mk_c (Var var) Le o))) in H by (intros; reflexivity).
+          unfold ret in H. injection H as <- <-. rewrite fold_addc1.
+          exact (min_upper exps s _ var Ok Ne Npl I Ix Tl Mv ops s2 HM).
+        * (* Exact *)
+          cbn [negb andb] in H.
+          match type of H with context [if negb ?b then _ else _] => destruct b eqn:HF; cbn [negb] in H; [|discriminate] end.
+          apply andb_true_iff in HF as [Fhi Flo]. destruct (fin_inv _ Fhi) as [U Hhi].
+          unfold bind at 1, next_id at 1 in H. cbv beta iota in H.
+          match type of H with context [declare_variable ?v ?t] => set (var := v) in *; set (T := t) in * end.
+          unfold bind at 1, declare_variable at 1 in H. cbn [s_dom] in H. destruct (al_mem (s_dom s) var) eqn:Mv; [discriminate|].
+          unfold bind at 1 in H.
+          match type of H with context [mapMM ?f exps ?st] => destruct (mapMM f exps st) as [er|[ops s2]] eqn:HM; [discriminate|] end.
+          unfold bind at 1 in H.
+          match type of H with context [iterM ?f (seq 0 (List.length ops)) s2] => destruct (iterM f (seq 0 (List.length ops)) s2) as [er|[u3 s3]] eqn:HD; [discriminate|] end.
+          unfold bind at 1 in H.
+          rewrite (iterM_fold _ (fun t st => addc (addc st (mk_c (Var var) Le (fst (fst t))))
+                                   (mk_c (Var var) Ge (sub_exp (fst (fst t)) (mul_exp (Num (xq_sub (hi (snd (fst t))) (lo (bounds_of (s_an s) (Min exps))))) (sub_exp (Num (Fin 1%Q)) (snd t))))))) in H
+            by (intros [[o b0] sl] st; reflexivity).
+          unfold bind at 1, add_constraint at 1, ret in H. injection H as <- <-. rewrite fold_addc2.
+          exact (min_exact exps s _ var Ok Ne Npl I Ix Tl Mv _ U Hhi (forallb_finite_hi _ _ Flo) Exact ops s2 u3 s3 HM HD).
+    - (* max *)
+      rewrite okexp_Max in Ok. rewrite noprune_Max in Np. apply andb_true_iff in Np as [Npl Nret]. apply list_nat_eqb_eq in Nret.
+      rewrite xvars_Max in Ix. pose proof (tot_list_max _ Tt) as Tl.
+      destruct l as [|x l']; [discriminate|].
+      unfold linearize_extreme in H. unfold bind at 1, get_st at 1 in H. cbv zeta in H. rewrite Nret in H.
+      destruct l' as [|y l''].
+      + (* a single operand *)
+        cbn [List.length seq nth] in H. cbn [forallb] in Ok, Npl. rewrite andb_true_r in Ok, Npl. cbn [flat_map] in Ix. rewrite app_nil_r in Ix.
+        inversion Tl as [|? ? Tx _]; subst.
+        pose proof (IHn _ _ _ _ _ Ok Npl I Ix Tx H) as Sp.
+        apply (spec_un (Max [x]) x r r (fun z => z) (fun z => z) s c s' Ok Ix); [| | | |exact Sp].
+        * intros sigma v _ Hv. destruct (ev_max_inv _ _ _ Hv) as [v0 [vs [El ->]]]. cbn [evlist] in El.
+          destruct (evg sigma false x) as [vx|] eqn:Ex; [|discriminate]. inversion El; subst. exists v0. split; [exact Ex|reflexivity].
+        * intros A z Hz. exact Hz.
+        * intros z Fz. split; [exact Fz|reflexivity].
+        * intros z vz Hr. exact Hr.
+      + cbn [List.length seq] in H. change (0%nat :: 1%nat :: seq 2 (List.length l'')) with (seq 0 (List.length (x :: y :: l''))) in H.
+        set (exps := x :: y :: l'') in *.
+        rewrite (map_nth_seq exps (Num NaN)) in H.
+        rewrite (map_nth_seq_len (map (bounds_of (s_an s)) exps) b_unbounded (List.length exps) (eq_sym (map_length _ _))) in H.
+        assert (Ne : exps <> []) by discriminate.
+        destruct r.
+        * (* PreferLower: one-sided *)
+          cbn [negb andb] in H. unfold bind at 1, next_id at 1 in H. cbv beta iota in H.
+          match type of H with context [declare_variable ?v ?t] => set (var := v) in *; set (T := t) in * end.
+          unfold bind at 1, declare_variable at 1 in H. cbn [s_dom] in H. destruct (al_mem (s_dom s) var) eqn:Mv; [discriminate|].
+          unfold bind at 1 in H.
+          match type of H with context [mapMM ?f exps ?st] => destruct (mapMM f exps st) as [er|[ops s2]] eqn:HM; [discriminate|] end.
+          unfold bind at 1 in H. rewrite (iterM_fold _ (fun o st => addc st (mk_c (Var var) Ge o))) in H by (intros; reflexivity).
+          unfold ret in H. injection H as <- <-. rewrite fold_addc1.
+          exact (max_lower exps s _ var Ok Ne Npl I Ix Tl Mv ops s2 HM).
+        * (* PreferHigher: exact *)
+          cbn [negb andb] in H.
+          match type of H with context [if negb ?b then _ else _] => destruct b eqn:HF; cbn [negb] in H; [|discriminate] end.
+          apply andb_true_iff in HF as [Fhi Flo]. destruct (fin_inv _ Fhi) as [U Hhi].
+          unfold bind at 1, next_id at 1 in H. cbv beta iota in H.
+          match type of H with context [declare_variable ?v ?t] => set (var := v) in *; set (T := t) in * end.
+          unfold bind at 1, declare_variable at 1 in H. cbn [s_dom] in H. destruct (al_mem (s_dom s) var) eqn:Mv; [discriminate|].
+          unfold bind at 1 in H.
+          match type of H with context [mapMM ?f exps ?st] => destruct (mapMM f exps st) as [er|[ops s2]] eqn:HM; [discriminate|] end.
+          unfold bind at 1 in H.
+          match type of H with context [iterM ?f (seq 0 (List.length ops)) s2] => destruct (iterM f (seq 0 (List.length ops)) s2) as [er|[u3 s3]] eqn:HD; [discriminate|] end.
+          unfold bind at 1 in H.
+          rewrite (iterM_fold _ (fun t st => addc (addc st (mk_c (Var var) Ge (fst (fst t))))
+                                   (mk_c (Var var) Le (add_exp (fst (fst t)) (mul_exp (Num (xq_sub (hi (bounds_of (s_an s) (Max exps))) (lo (snd (fst t))))) (sub_exp (Num (Fin 1%Q)) (snd t))))))) in H
+            by (intros [[o b0] sl] st; reflexivity).
+          unfold bind at 1, add_constraint at 1, ret in H. injection H as <- <-. rewrite fold_addc2.
+          exact (max_exact exps s _ var Ok Ne Npl I Ix Tl Mv _ U Hhi (forallb_finite_lo _ _ Flo) PreferHigher ops s2 u3 s3 HM HD).
+        * (* Exact *)
+          cbn [negb andb] in H.
+          match type of H with context [if negb ?b then _ else _] => destruct b eqn:HF; cbn [negb] in H; [|discriminate] end.
+          apply andb_true_iff in HF as [Fhi Flo]. destruct (fin_inv _ Fhi) as [U Hhi].
+          unfold bind at 1, next_id at 1 in H. cbv beta iota in H.
+          match type of H with context [declare_variable ?v ?t] => set (var := v) in *; set (T := t) in * end.
+          unfold bind at 1, declare_variable at 1 in H. cbn [s_dom] in H. destruct (al_mem (s_dom s) var) eqn:Mv; [discriminate|].
+          unfold bind at 1 in H.
+          match type of H with context [mapMM ?f exps ?st] => destruct (mapMM f exps st) as [er|[ops s2]] eqn:HM; [discriminate|] end.
+          unfold bind at 1 in H.
+          match type of H with context [iterM ?f (seq 0 (List.length ops)) s2] => destruct (iterM f (seq 0 (List.length ops)) s2) as [er|[u3 s3]] eqn:HD; [discriminate|] end.
+          unfold bind at 1 in H.
+          rewrite (iterM_fold _ (fun t st => addc (addc st (mk_c (Var var) Ge (fst (fst t))))
+                                   (mk_c (Var var) Le (add_exp (fst (fst t)) (mul_exp (Num (xq_sub (hi (bounds_of (s_an s) (Max exps))) (lo (snd (fst t))))) (sub_exp (Num (Fin 1%Q)) (snd t))))))) in H
+            by (intros [[o b0] sl] st; reflexivity).
+          unfold bind at 1, add_constraint at 1, ret in H. injection H as <- <-. rewrite fold_addc2.
+          exact (max_exact exps s _ var Ok Ne Npl I Ix Tl Mv _ U Hhi (forallb_finite_lo _ _ Flo) Exact ops s2 u3 s3 HM HD).
+  Qed.
+End Extreme.
+
+Theorem lin_ok : forall n e r s c s', okexp e = true -> noprune (s_an s) e = true -> INV s -> incl (xvars e) (keys s) -> tot e ->
   lin n e r s = inr (c, s') -> lin_spec e r s c s'.
 Proof.
-  induction n as [|n IH]; intros e r s c s' Ok I Ix Tt H; [discriminate|].
-  cbn [lin] in H. destruct e; cbn [okexp] in Ok; try discriminate; cbn [lin_step] in H.
+  induction n as [|n IH]; intros e r s c s' Ok Np I Ix Tt H; [discriminate|].
+  cbn [lin] in H. destruct e; try discriminate; cbn [lin_step] in H.
   - (* Num *)
     inversion H; subst c s'; clear H. destruct (Tt (fun _ => 0)) as [v0 Hv0]. apply ev_Num_inv in Hv0 as [q [-> _]].
     apply spec_leaf; [exact I|unfold l_from_rhs; apply add_rhs_ok, new_ok|exact (proj1 (from_rhs_sound (fun _ => 0) q))|].
@@ -666,7 +1724,7 @@ Proof.
     apply spec_leaf; [exact I|apply from_var_ok; apply Ix; left; reflexivity|exact (proj1 (from_var_one (fun _ => 0) s0))|].
     intros sigma v Hv. rewrite ev_var in Hv. inversion Hv; subst v. exact (proj2 (from_var_one sigma s0)).
   - (* Abs *)
-    cbn [xvars] in Ix. pose proof (tot_abs _ Tt) as Tx.
+    cbn [okexp noprune xvars] in Ok, Np, Ix. pose proof (tot_abs _ Tt) as Tx.
     unfold bind at 1, get_st at 1 in H. cbv zeta in H.
     set (ib := bounds_of (s_an s) e) in *.
     assert (Bnd : forall sigma t, st_sat s sigma -> ev sigma e = Some t -> in_b ib t).
@@ -674,7 +1732,7 @@ Proof.
       intros k Hk. apply (inv_box s I sigma D). apply Ix. exact Hk. }
     destruct (xq_geb (lo ib) (Fin 0%Q)) eqn:G1.
     { (* the argument is known to be non-negative *)
-      pose proof (IH _ _ _ _ _ Ok I Ix Tx H) as Sp.
+      pose proof (IH _ _ _ _ _ Ok Np I Ix Tx H) as Sp.
       apply (spec_un (Abs e) e r r (fun x => x) (fun x => x) s c s' Ok Ix); [| | | |exact Sp].
       - intros sigma v S Hv. destruct (ev_abs_inv _ _ _ Hv) as [t [Et ->]]. exists t. split; [exact Et|].
         destruct (Bnd sigma t S Et) as [B1 _]. apply Rabs_right. apply Rle_ge. exact (xq_geb_Fin0 _ _ G1 B1).
@@ -685,7 +1743,7 @@ Proof.
     { (* the argument is known to be non-positive *)
       unfold bind in H. destruct (lin n e (req_reversed r) s) as [er|[lv s1]] eqn:E1; [discriminate|].
       inversion H; subst c s'; clear H.
-      pose proof (IH _ _ _ _ _ Ok I Ix Tx E1) as Sp.
+      pose proof (IH _ _ _ _ _ Ok Np I Ix Tx E1) as Sp.
       apply (spec_un (Abs e) e r (req_reversed r) (fun x => l_mul_by x (Fin (-1)%Q)) Ropp s lv s1 Ok Ix); [| | | |exact Sp].
       - intros sigma v S Hv. destruct (ev_abs_inv _ _ _ Hv) as [t [Et ->]]. exists t. split; [exact Et|].
         destruct (Bnd sigma t S Et) as [_ B2]. apply Rabs_left1. exact (xq_leb_Fin0 _ _ G2 B2).
@@ -697,7 +1755,7 @@ Proof.
     destruct ((match r with PreferLower => false | _ => true end) && (negb (xq_is_finite (lo ib)) || negb (xq_is_finite (hi ib)))) eqn:NE;
       [discriminate|].
     unfold bind at 1 in H. destruct (lin n e Exact s) as [er|[inner_c s1]] eqn:E1; [discriminate|].
-    pose proof (IH _ _ _ _ _ Ok I Ix Tx E1) as Sp.
+    pose proof (IH _ _ _ _ _ Ok Np I Ix Tx E1) as Sp.
     cbv beta iota zeta delta [bind next_id declare_variable add_constraint ret] in H. cbn [s_dom s_queue s_rows s_cnt s_an] in H.
     match type of H with context [al_mem (s_dom s1) ?v] => set (vn := v) in *; destruct (al_mem (s_dom s1) vn) eqn:Mv; [destruct r; discriminate|] end.
     destruct r.
@@ -716,7 +1774,10 @@ Proof.
       match type of H with context [al_mem ?d ?p] => set (pn := p) in *; destruct (al_mem d pn) eqn:Mp; [discriminate|] end.
       inversion H; subst c s'; clear H.
       exact (abs_exact e s s1 inner_c _ vn Ok I Ix Sp Mv pn ql qh Elo Ehi G1 G2 Mp Exact).
+  - (* Min *) exact (extreme_ok n IH KMin l r s c s' Ok Np I Ix Tt H).
+  - (* Max *) exact (extreme_ok n IH KMax l r s c s' Ok Np I Ix Tt H).
   - (* BinOp *)
+    cbn [okexp noprune] in Ok, Np. apply andb_true_iff in Np as [Np1 Np2].
     assert (O12 : okexp e1 = true /\ okexp e2 = true) by (destruct op; try discriminate; apply andb_true_iff in Ok; exact Ok).
     destruct O12 as [O1 O2]. destruct (tot_binop _ _ _ Tt) as [T1 T2]. cbn [xvars] in Ix.
     assert (Ix1 : incl (xvars e1) (keys s)) by (intros k Hk; apply Ix; apply in_or_app; left; exact Hk).
@@ -725,8 +1786,9 @@ Proof.
     + (* Add *)
       unfold bind in H. destruct (lin n e1 r s) as [er|[la s1]] eqn:E1; [discriminate|].
       destruct (lin n e2 r s1) as [er|[lb s2]] eqn:E2; [discriminate|]. inversion H; subst c s'; clear H.
-      pose proof (IH _ _ _ _ _ O1 I Ix1 T1 E1) as Sp1. destruct Sp1 as [I1 [G1 Rest1]].
-      pose proof (IH _ _ _ _ _ O2 I1 (fun k Hk => grows_keys _ _ G1 k (Ix2 k Hk)) T2 E2) as Sp2.
+      pose proof (IH _ _ _ _ _ O1 Np1 I Ix1 T1 E1) as Sp1. destruct Sp1 as [I1 [G1 Rest1]].
+      assert (Np2' : noprune (s_an s1) e2 = true) by (rewrite (noprune_grows s s1 e2 G1 Ix2); exact Np2).
+      pose proof (IH _ _ _ _ _ O2 Np2' I1 (fun k Hk => grows_keys _ _ G1 k (Ix2 k Hk)) T2 E2) as Sp2.
       apply (spec_bin (BinOp Add e1 e2) e1 e2 r r r l_merge_add Rplus s la s1 lb s2 I O2 Ix2); [| | | |exact (conj I1 (conj G1 Rest1))|exact Sp2].
       * intros sigma v Hv. destruct (ev_binop_inv _ _ _ _ _ Hv) as [x [y [Ex [Ey Hop]]]]. cbn in Hop. inversion Hop. eauto.
       * intros A x y. apply merge_add_ok.
@@ -735,8 +1797,9 @@ Proof.
     + (* Sub *)
       unfold bind in H. destruct (lin n e1 r s) as [er|[la s1]] eqn:E1; [discriminate|].
       destruct (lin n e2 (req_reversed r) s1) as [er|[lb s2]] eqn:E2; [discriminate|]. inversion H; subst c s'; clear H.
-      pose proof (IH _ _ _ _ _ O1 I Ix1 T1 E1) as Sp1. destruct Sp1 as [I1 [G1 Rest1]].
-      pose proof (IH _ _ _ _ _ O2 I1 (fun k Hk => grows_keys _ _ G1 k (Ix2 k Hk)) T2 E2) as Sp2.
+      pose proof (IH _ _ _ _ _ O1 Np1 I Ix1 T1 E1) as Sp1. destruct Sp1 as [I1 [G1 Rest1]].
+      assert (Np2' : noprune (s_an s1) e2 = true) by (rewrite (noprune_grows s s1 e2 G1 Ix2); exact Np2).
+      pose proof (IH _ _ _ _ _ O2 Np2' I1 (fun k Hk => grows_keys _ _ G1 k (Ix2 k Hk)) T2 E2) as Sp2.
       apply (spec_bin (BinOp Sub e1 e2) e1 e2 r r (req_reversed r) l_merge_sub Rminus s la s1 lb s2 I O2 Ix2); [| | | |exact (conj I1 (conj G1 Rest1))|exact Sp2].
       * intros sigma v Hv. destruct (ev_binop_inv _ _ _ _ _ Hv) as [x [y [Ex [Ey Hop]]]]. cbn in Hop. inversion Hop. eauto.
       * intros A x y. apply merge_sub_ok.
@@ -752,7 +1815,7 @@ Proof.
            apply ev_Num_inv in Ex as [q' [E ->]]. inversion E; subst q'. rewrite (proj2 (from_rhs_sound sigma 0%Q)), Q2R_0, Z. lra.
         -- apply xq_is_zero_Fin_false in Z. unfold bind in H.
            destruct (lin n e2 (through_scale r (Fin q)) s) as [er|[lv s1]] eqn:E2; [discriminate|]. inversion H; subst c s'; clear H.
-           pose proof (IH _ _ _ _ _ O2 I Ix2 T2 E2) as Sp.
+           pose proof (IH _ _ _ _ _ O2 Np2 I Ix2 T2 E2) as Sp.
            apply (spec_un (BinOp Mul (Num (Fin q)) e2) e2 r (through_scale r (Fin q)) (fun x => l_mul_by x (Fin q)) (fun y => Q2R q * y) s lv s1 O2 Ix2); [| | | |exact Sp].
            ++ intros sigma v _ Hv. destruct (ev_binop_inv _ _ _ _ _ Hv) as [x [y [Ex [Ey Hop]]]]. cbn in Hop. inversion Hop.
               apply ev_Num_inv in Ex as [q' [E ->]]. inversion E; subst q'. eauto.
@@ -773,7 +1836,7 @@ Proof.
            apply ev_Num_inv in Ey as [q' [E ->]]. inversion E; subst q'. rewrite (proj2 (from_rhs_sound sigma 0%Q)), Q2R_0, Z. lra.
         -- apply xq_is_zero_Fin_false in Z. unfold bind in Hstep.
            destruct (lin n e1 (through_scale r (Fin q)) s) as [er|[lv s1]] eqn:E1; [discriminate|]. inversion Hstep; subst c s'; clear Hstep.
-           pose proof (IH _ _ _ _ _ O1 I Ix1 T1 E1) as Sp.
+           pose proof (IH _ _ _ _ _ O1 Np1 I Ix1 T1 E1) as Sp.
            apply (spec_un (BinOp Mul e1 (Num (Fin q))) e1 r (through_scale r (Fin q)) (fun x => l_mul_by x (Fin q)) (fun y => Q2R q * y) s lv s1 O1 Ix1); [| | | |exact Sp].
            ++ intros sigma v _ Hv. destruct (ev_binop_inv _ _ _ _ _ Hv) as [x [y [Ex [Ey Hop]]]]. cbn in Hop. inversion Hop.
               apply ev_Num_inv in Ey as [q' [E ->]]. inversion E; subst q'. exists x. split; [exact Ex|ring].
@@ -787,7 +1850,7 @@ Proof.
       destruct (xq_is_zero (Fin q)) eqn:Z; [discriminate|]. unfold bind in H.
       rewrite (through_scale_div r q NZ) in H.
       destruct (lin n e1 (through_scale r (Fin q)) s) as [er|[lv s1]] eqn:E1; [discriminate|]. inversion H; subst c s'; clear H.
-      pose proof (IH _ _ _ _ _ O1 I Ix1 T1 E1) as Sp.
+      pose proof (IH _ _ _ _ _ O1 Np1 I Ix1 T1 E1) as Sp.
       apply (spec_un (BinOp Div e1 (Num (Fin q))) e1 r (through_scale r (Fin q)) (fun x => l_div_by x (Fin q)) (fun y => y / Q2R q) s lv s1 O1 Ix1); [| | | |exact Sp].
       * intros sigma v _ Hv. destruct (ev_binop_inv _ _ _ _ _ Hv) as [x [y [Ex [Ey Hop]]]].
         apply ev_Num_inv in Ey as [q' [E ->]]. inversion E; subst q'. cbn [ev_binop] in Hop.
@@ -796,9 +1859,9 @@ Proof.
       * intros x Fx. split; [exact (proj1 (div_by_sound (fun _ => 0) x q Fx NZ))|intros sigma; exact (proj2 (div_by_sound sigma x q Fx NZ))].
       * intros x vx. apply rel_div. exact NZ.
   - (* UnOp Neg *)
-    destruct op; [|discriminate]. cbn [xvars] in Ix. pose proof (tot_neg _ Tt) as Tx.
+    destruct op; [|discriminate]. cbn [okexp noprune xvars] in Ok, Np, Ix. pose proof (tot_neg _ Tt) as Tx.
     unfold bind in H. destruct (lin n e (req_reversed r) s) as [er|[lv s1]] eqn:E1; [discriminate|]. inversion H; subst c s'; clear H.
-    pose proof (IH _ _ _ _ _ Ok I Ix Tx E1) as Sp.
+    pose proof (IH _ _ _ _ _ Ok Np I Ix Tx E1) as Sp.
     apply (spec_un (UnOp Neg e) e r (req_reversed r) (fun x => l_mul_by x (Fin (-1)%Q)) Ropp s lv s1 Ok Ix); [| | | |exact Sp].
     + intros sigma v _ Hv. unfold ev in *. rewrite evg_Neg in Hv. destruct (evg sigma false e) as [t|]; [|discriminate]. inversion Hv. eauto.
     + intros A x Hx. apply mul_by_ok. exact Hx.
@@ -814,7 +1877,7 @@ Definition step_ok (c : constr) (s : lst) : bool :=
       match try_normalize_logic_constraint s l (c_cmp c) r with
       | Some _ => false
       | None => match fs_pure (BinOp Sub l r) with
-                | Some e => okexp e && forallb (set_mem (keys s)) (xvars e)
+                | Some e => okexp e && forallb (set_mem (keys s)) (xvars e) && noprune (s_an s) e
                 | None => false
                 end
       end
@@ -838,7 +1901,7 @@ Proof.
   intros I [NA [Pl [Pr [Il Ir]]]] SO H. unfold step_ok in SO.
   destruct (fs_pure (c_lhs c)) as [l|] eqn:Fl; [|discriminate]. destruct (fs_pure (c_rhs c)) as [r|] eqn:Fr; [|discriminate].
   destruct (try_normalize_logic_constraint s l (c_cmp c) r) eqn:TN; [discriminate|].
-  destruct (fs_pure (BinOp Sub l r)) as [e|] eqn:Fe; [|discriminate]. apply andb_true_iff in SO as [Oe Ve].
+  destruct (fs_pure (BinOp Sub l r)) as [e|] eqn:Fe; [|discriminate]. apply andb_true_iff in SO as [SO Npe]. apply andb_true_iff in SO as [Oe Ve].
   apply forallb_mem_incl in Ve.
   unfold process_constraint, bind in H. rewrite flatten_simplify_eq, Fl in H. rewrite flatten_simplify_eq, Fr in H.
   rewrite NA in H. unfold get_st in H. rewrite TN in H.
@@ -853,7 +1916,7 @@ Proof.
     assert (Ts : evT sigma (BinOp Sub l r) = Some (a - b)) by (unfold evT in *; rewrite evg_BinOp, Tl, Tr; reflexivity).
     exact (proj2 (fs_pure_sound sigma _ _ _ Fe Ts)). }
   assert (Te : tot e) by (intros sigma; destruct (Vals sigma) as [a [b [_ [_ E]]]]; eauto).
-  destruct (lin_ok _ _ _ _ _ _ Oe I Ve Te EL) as [I2 [G2 [K2 [F2 [S2 C2]]]]].
+  destruct (lin_ok _ _ _ _ _ _ Oe Npe I Ve Te EL) as [I2 [G2 [K2 [F2 [S2 C2]]]]].
   set (row := mkRow (c_name c) (l_vars v) (xq_neg (l_rhs v)) (c_cmp c)).
   change (mkS (s_queue s2) (s_rows s2 ++ [row]) (s_cnt s2) (s_dom s2) (s_an s2)) with (pushr s2 row).
   destruct F2 as [Fv Fr2]. destruct (fin_neg (l_rhs v) Fr2) as [Fn Vn].
@@ -1068,7 +2131,7 @@ Definition compile_trace (m : model) : bool :=
   match fs_pure (m_obj m) with
   | None => false
   | Some o =>
-      okexp o && forallb (set_mem (keys (init_state m))) (xvars o) &&
+      okexp o && forallb (set_mem (keys (init_state m))) (xvars o) && noprune (s_an (init_state m)) o &&
       match linearize_exp o (req_of_dir (m_dir m)) (init_state m) with
       | inr (_, s1) => trace_ok (loop_fuel m) s1
       | inl _ => false
@@ -1142,7 +2205,7 @@ Proof.
   intros BM HC. pose proof (INV_init m BM) as I0. pose proof (fun rho => init_sat m rho BM) as Hinit.
   destruct BM as [_ _ _ _ Pobj _ Tr]. rewrite compile_unfold in HC. unfold compile_trace in Tr.
   destruct (fs_pure (m_obj m)) as [o|] eqn:Fo; [|discriminate].
-  apply andb_true_iff in Tr as [Tr Tl]. apply andb_true_iff in Tr as [Oo Vo]. apply forallb_mem_incl in Vo.
+  apply andb_true_iff in Tr as [Tr Tl]. apply andb_true_iff in Tr as [Tr Npo]. apply andb_true_iff in Tr as [Oo Vo]. apply forallb_mem_incl in Vo.
   destruct (linearize_exp o (req_of_dir (m_dir m)) (init_state m)) as [er|[lobj s1]] eqn:EL; [discriminate|].
   destruct (main_loop (loop_fuel m) s1) as [er|[u s2]] eqn:EM; [discriminate|]. injection HC as <-.
   assert (Vobj : forall sigma v, ev sigma (m_obj m) = Some v -> ev sigma o = Some v).
@@ -1151,7 +2214,7 @@ Proof.
   assert (To : tot o).
   { intros sigma. destruct (plainA_total sigma _ Pobj) as [v [_ Ev]]. exists v. apply Vobj. exact Ev. }
   unfold linearize_exp in EL.
-  destruct (lin_ok _ _ _ _ _ _ Oo I0 Vo To EL) as [I1 [G1 [K1 [F1 [S1 C1]]]]].
+  destruct (lin_ok _ _ _ _ _ _ Oo Npo I0 Vo To EL) as [I1 [G1 [K1 [F1 [S1 C1]]]]].
   destruct (main_loop_ok _ _ _ _ I1 Tl EM) as [I2 [E2 [Q2 [S2 C2]]]].
   assert (K2 : ctx_ok (keys s2) lobj) by (eapply ctx_ok_mono; [apply ext_keys; exact E2|exact K1]).
   split.
@@ -1272,3 +2335,16 @@ Example m1_compiles : exists L, compile m1 = inr L /\ (List.length (lm_vars L) >
 Proof. eexists. split; [vm_compute; reflexivity|]. cbn. lia. Qed.
 Example m1_not_affine : affine_modelb m1 = false.
 Proof. vm_compute. reflexivity. Qed.
+
+(* min and max: one-sided rows under a matching objective / comparison, selector rows otherwise *)
+Definition m2 : model :=
+  mkModel DMin (BinOp Add (Max [Var "x"; BinOp Sub (Var "y") (Num (Fin 1%Q)); Num (Fin 0%Q)]) (Var "y"))
+    [mkConstr "" (Min [Var "x"; Var "y"]) Ge (Num (Fin (-2)%Q)) false;
+     mkConstr "cap" (BinOp Add (Max [Var "x"; Abs (Var "y")]) (Var "x")) Le (Num (Fin 7%Q)) false;
+     mkConstr "" (Max [BinOp Mul (Num (Fin 2%Q)) (Var "x"); Var "y"]) Ge (Num (Fin 1%Q)) false]
+    [("x", mkDV (TReal (Fin (-4)%Q) (Fin 6%Q)) true); ("y", mkDV (TReal (Fin (-3)%Q) (Fin 5%Q)) true)].
+Example m2_in_fragment : abs_modelb m2 = true.
+Proof. vm_compute. reflexivity. Qed.
+Example m2_compiles : exists L, compile m2 = inr L /\ (List.length (lm_vars L) > 6)%nat.
+Proof. eexists. split; [vm_compute; reflexivity|]. cbn. lia. Qed.
+Print Assumptions compile_abs_equiv.
